@@ -1,1777 +1,4 @@
-import CoolerModel.Model.Sanitize
-import CoolerModel.Props.C20
-/-!
-# C05 — each valid input record is counted once, in the pixel that contains it
-
-Theorems about `Model/Sanitize.lean` (`_sanitize_records`, `_sanitize_pixels`, `aggregate_records`).
-The model is of the code as it stands; the property's wording is the L0 layer (`binOf`, `retained`,
-`pixelOf`, `specCounts`).  Main results
-
-* `binAssign_var_correct`, `binAssign_fixed_correct`, `assign_eq_binOf` — both assignment paths give the
-  bin with `start ≤ pos < stop` of the record's own chromosome (the fixed path through
-  `C20.getBinsize_truthful`);
-* `sanitize_count_once`, `aggregated_eq_spec` — one unit per retained record in its pixel, Σ = number retained;
-* `sanitize_reflect_upper` (via `assign_le_of_lex`, monotonicity of the assignment);
-* `sanitize_order_independent`, `sanitize_one_based`;
-* `sanitize_rejects_outside_partial`, `sanitize_rejects_outside_fails` (known finding D13);
-* `pixels_count_once`, `pixels_reflect_upper` for pre-binned records;
-* `tabix_correct` — the row-by-row stream of `TabixAggregator` equals `sanitize`∘`aggregate` (via the
-  key-range splitting lemma `rows_flatMap_eq`).
--/
-namespace Cooler.C05
-open Cooler Cooler.Sanitize
-
-/-! ## grouping -/
-
-theorem klt_irrefl (a : Key) : ¬ klt a a := by simp [klt]
-
-theorem klt_tri (a b : Key) : klt a b ∨ a = b ∨ klt b a := by
-  rcases a with ⟨a1, a2⟩; rcases b with ⟨b1, b2⟩
-  simp only [klt, Prod.mk.injEq]; omega
-
-theorem klt_trans {a b c : Key} : klt a b → klt b c → klt a c := by
-  simp only [klt]; omega
-
-theorem klt_asymm {a b : Key} : klt a b → ¬ klt b a := by
-  simp only [klt]; omega
-
-theorem klt_ne {a b : Key} (h : klt a b) : a ≠ b := by
-  intro e; subst e; exact klt_irrefl _ h
-
-theorem insertCell_lt {k : Key} {v : Int} {c : Cell} {z : List Cell} (h : klt k c.k) :
-    insertCell k v (c :: z) = ⟨k, 1, v⟩ :: c :: z := by
-  simp [insertCell, h]
-
-theorem insertCell_eq {k : Key} {v : Int} {c : Cell} {z : List Cell} (h : k = c.k) :
-    insertCell k v (c :: z) = ⟨k, c.n + 1, c.s + v⟩ :: z := by
-  subst h; simp [insertCell, klt_irrefl]
-
-theorem insertCell_gt {k : Key} {v : Int} {c : Cell} {z : List Cell} (h : klt c.k k) :
-    insertCell k v (c :: z) = c :: insertCell k v z := by
-  have h1 := klt_asymm h
-  have h2 : k ≠ c.k := fun e => klt_ne h e.symm
-  simp [insertCell, h1, h2]
-
-theorem insertCell_comm (k : Key) (v : Int) (k' : Key) (v' : Int) (z : List Cell) :
-    insertCell k v (insertCell k' v' z) = insertCell k' v' (insertCell k v z) := by
-  induction z with
-  | nil =>
-    have e1 : ∀ (k : Key) (v : Int), insertCell k v [] = [⟨k, 1, v⟩] := fun _ _ => rfl
-    rw [e1, e1]
-    rcases klt_tri k k' with h | h | h
-    · rw [insertCell_lt (c := ⟨k', 1, v'⟩) h, insertCell_gt (c := ⟨k, 1, v⟩) h, e1]
-    · subst h
-      rw [insertCell_eq (c := ⟨k, 1, v'⟩) rfl, insertCell_eq (c := ⟨k, 1, v⟩) rfl]
-      simp only [Int.add_comm]
-    · rw [insertCell_gt (c := ⟨k', 1, v'⟩) h, insertCell_lt (c := ⟨k, 1, v⟩) h, e1]
-  | cons c z ih =>
-    rcases klt_tri k c.k with h1 | h1 | h1 <;> rcases klt_tri k' c.k with h2 | h2 | h2
-    · rw [insertCell_lt h2, insertCell_lt h1]
-      rcases klt_tri k k' with h | h | h
-      · rw [insertCell_lt (c := ⟨k', 1, v'⟩) h, insertCell_gt (c := ⟨k, 1, v⟩) h, insertCell_lt h2]
-      · subst h
-        rw [insertCell_eq (c := ⟨k, 1, v'⟩) rfl, insertCell_eq (c := ⟨k, 1, v⟩) rfl]
-        simp only [Int.add_comm]
-      · rw [insertCell_gt (c := ⟨k', 1, v'⟩) h, insertCell_lt (c := ⟨k, 1, v⟩) h, insertCell_lt h1]
-    · subst h2
-      rw [insertCell_eq rfl, insertCell_lt h1, insertCell_lt (c := ⟨c.k, c.n + 1, c.s + v'⟩) h1,
-        insertCell_gt (c := ⟨k, 1, v⟩) h1, insertCell_eq rfl]
-    · have h := klt_trans h1 h2
-      rw [insertCell_gt h2, insertCell_lt h1, insertCell_lt h1, insertCell_gt (c := ⟨k, 1, v⟩) h,
-        insertCell_gt h2]
-    · subst h1
-      rw [insertCell_eq rfl, insertCell_lt h2, insertCell_lt (c := ⟨c.k, c.n + 1, c.s + v⟩) h2,
-        insertCell_gt (c := ⟨k', 1, v'⟩) h2, insertCell_eq rfl]
-    · subst h1; subst h2
-      rw [insertCell_eq rfl, insertCell_eq rfl, insertCell_eq (c := ⟨c.k, c.n + 1, c.s + v'⟩) rfl,
-        insertCell_eq (c := ⟨c.k, c.n + 1, c.s + v⟩) rfl]
-      simp only [Int.add_assoc, Int.add_comm v v']
-    · subst h1
-      rw [insertCell_gt h2, insertCell_eq rfl, insertCell_eq rfl,
-        insertCell_gt (c := ⟨c.k, c.n + 1, c.s + v⟩) h2]
-    · have h := klt_trans h2 h1
-      rw [insertCell_lt h2, insertCell_gt h1, insertCell_gt (c := ⟨k', 1, v'⟩) h, insertCell_gt h1,
-        insertCell_lt h2]
-    · subst h2
-      rw [insertCell_eq rfl, insertCell_gt h1, insertCell_gt (c := ⟨c.k, c.n + 1, c.s + v'⟩) h1,
-        insertCell_eq rfl]
-    · rw [insertCell_gt h2, insertCell_gt h1, insertCell_gt h1, insertCell_gt h2, ih]
-
-/-- **order independence of grouping**: the aggregate depends on the multiset of records only -/
-theorem groupCells_perm {l₁ l₂ : List (Key × Int)} (h : l₁.Perm l₂) : groupCells l₁ = groupCells l₂ := by
-  unfold groupCells
-  exact h.foldr_eq' (fun x _ y _ z => insertCell_comm y.1 y.2 x.1 x.2 z) []
-
-/-- keys strictly increasing (hence pairwise distinct) -/
-def SortedCells (l : List Cell) : Prop := l.Pairwise fun a b => klt a.k b.k
-
-theorem mem_insertCell {k : Key} {v : Int} {l : List Cell} {c : Cell} (h : c ∈ insertCell k v l) :
-    c.k = k ∨ c ∈ l := by
-  induction l with
-  | nil => simp [insertCell] at h; left; rw [h]
-  | cons d l ih =>
-    unfold insertCell at h
-    split at h
-    · rcases List.mem_cons.mp h with h | h
-      · left; rw [h]
-      · right; exact h
-    · split at h
-      · rcases List.mem_cons.mp h with h | h
-        · left; rw [h]
-        · right; exact List.mem_cons_of_mem _ h
-      · rcases List.mem_cons.mp h with h | h
-        · right; rw [h]; exact List.mem_cons_self
-        · rcases ih h with h | h
-          · left; exact h
-          · right; exact List.mem_cons_of_mem _ h
-
-theorem insertCell_sorted {k : Key} {v : Int} {l : List Cell} (h : SortedCells l) :
-    SortedCells (insertCell k v l) := by
-  induction l with
-  | nil => simp [insertCell, SortedCells]
-  | cons d l ih =>
-    have hd : ∀ {c}, c ∈ l → klt d.k c.k := fun hc => List.rel_of_pairwise_cons h hc
-    have hl := List.Pairwise.of_cons h
-    rcases klt_tri k d.k with h1 | h1 | h1
-    · rw [insertCell_lt h1]
-      refine List.Pairwise.cons ?_ h
-      intro c hc
-      rcases List.mem_cons.mp hc with e | hc
-      · rw [e]; exact h1
-      · exact klt_trans h1 (hd hc)
-    · rw [insertCell_eq h1]
-      refine List.Pairwise.cons ?_ hl
-      intro c hc
-      have := hd hc
-      rw [← h1] at this; exact this
-    · rw [insertCell_gt h1]
-      refine List.Pairwise.cons ?_ (ih hl)
-      intro c hc
-      rcases mem_insertCell hc with e | hc
-      · rw [e]; exact h1
-      · exact hd hc
-
-/-- the aggregated table is strictly sorted by `(bin1, bin2)`: every pixel appears once -/
-theorem groupCells_sorted (l : List (Key × Int)) : SortedCells (groupCells l) := by
-  induction l with
-  | nil => simp [groupCells, SortedCells]
-  | cons x l ih => exact insertCell_sorted ih
-
-theorem sortedCells_nodup {l : List Cell} (h : SortedCells l) : (l.map (·.k)).Nodup := by
-  unfold SortedCells at h
-  rw [List.Nodup, List.pairwise_map]
-  exact h.imp fun hab => klt_ne hab
-
-theorem countAt_insertCell (k : Key) (v : Int) (l : List Cell) (k' : Key) :
-    countAt (insertCell k v l) k' = countAt l k' + if k = k' then 1 else 0 := by
-  induction l with
-  | nil => simp [insertCell, countAt]
-  | cons d l ih =>
-    unfold insertCell
-    split
-    · simp only [countAt]; omega
-    · split
-      · rename_i h; subst h
-        simp only [countAt]
-        split <;> omega
-      · simp only [countAt, ih]; omega
-
-theorem sumAt_insertCell (k : Key) (v : Int) (l : List Cell) (k' : Key) :
-    sumAt (insertCell k v l) k' = sumAt l k' + if k = k' then v else 0 := by
-  induction l with
-  | nil => simp [insertCell, sumAt]
-  | cons d l ih =>
-    unfold insertCell
-    split
-    · simp only [sumAt]; omega
-    · split
-      · rename_i h; subst h
-        simp only [sumAt]
-        split <;> omega
-      · simp only [sumAt, ih]; omega
-
-theorem totalCount_insertCell (k : Key) (v : Int) (l : List Cell) :
-    totalCount (insertCell k v l) = totalCount l + 1 := by
-  induction l with
-  | nil => simp [insertCell, totalCount]
-  | cons d l ih =>
-    unfold insertCell
-    split
-    · simp only [totalCount]; omega
-    · split
-      · simp only [totalCount]; omega
-      · simp only [totalCount, ih]; omega
-
-/-- sum of the values recorded under key `k` -/
-def sumOf : List (Key × Int) → Key → Int
-  | [], _ => 0
-  | kv :: rest, k => (if kv.1 = k then kv.2 else 0) + sumOf rest k
-
-/-- **count once**: the count stored under a key is the number of records mapped to it -/
-theorem countAt_groupCells (l : List (Key × Int)) (k : Key) :
-    countAt (groupCells l) k = l.countP (fun kv => kv.1 = k) := by
-  induction l with
-  | nil => simp [groupCells, countAt]
-  | cons x l ih =>
-    have : groupCells (x :: l) = insertCell x.1 x.2 (groupCells l) := rfl
-    rw [this, countAt_insertCell, ih, List.countP_cons]
-    simp
-
-theorem sumAt_groupCells (l : List (Key × Int)) (k : Key) :
-    sumAt (groupCells l) k = sumOf l k := by
-  induction l with
-  | nil => simp [groupCells, sumAt, sumOf]
-  | cons x l ih =>
-    have : groupCells (x :: l) = insertCell x.1 x.2 (groupCells l) := rfl
-    rw [this, sumAt_insertCell, ih]
-    simp only [sumOf]; omega
-
-/-- **the total equals the number of records** -/
-theorem totalCount_groupCells (l : List (Key × Int)) : totalCount (groupCells l) = l.length := by
-  induction l with
-  | nil => simp [groupCells, totalCount]
-  | cons x l ih =>
-    have : groupCells (x :: l) = insertCell x.1 x.2 (groupCells l) := rfl
-    rw [this, totalCount_insertCell, ih]; simp
-
-/-- a key is listed iff some record maps to it, and then with a positive count -/
-theorem countAt_pos_of_mem {l : List Cell} (hn : ∀ c ∈ l, 1 ≤ c.n) {c : Cell} (hc : c ∈ l) :
-    1 ≤ countAt l c.k := by
-  induction l with
-  | nil => simp at hc
-  | cons d l ih =>
-    simp only [countAt]
-    rcases List.mem_cons.mp hc with e | h
-    · subst e; simp; have := hn c List.mem_cons_self; omega
-    · have := ih (fun c hc => hn c (List.mem_cons_of_mem _ hc)) h; omega
-
-theorem insertCell_pos {k : Key} {v : Int} {l : List Cell} (hn : ∀ c ∈ l, 1 ≤ c.n) :
-    ∀ c ∈ insertCell k v l, 1 ≤ c.n := by
-  induction l with
-  | nil => intro c hc; simp [insertCell] at hc; subst hc; simp
-  | cons d l ih =>
-    intro c hc
-    unfold insertCell at hc
-    split at hc
-    · rcases List.mem_cons.mp hc with e | h
-      · subst e; simp
-      · exact hn c h
-    · split at hc
-      · rcases List.mem_cons.mp hc with e | h
-        · subst e; simp
-        · exact hn c (List.mem_cons_of_mem _ h)
-      · rcases List.mem_cons.mp hc with e | h
-        · subst e; exact hn _ List.mem_cons_self
-        · exact ih (fun c hc => hn c (List.mem_cons_of_mem _ hc)) c h
-
-theorem groupCells_pos (l : List (Key × Int)) : ∀ c ∈ groupCells l, 1 ≤ c.n := by
-  induction l with
-  | nil => intro c hc; simp [groupCells] at hc
-  | cons x l ih => exact insertCell_pos ih
-
-theorem countAt_zero_of_not_mem {l : List Cell} {k : Key} (h : ∀ c ∈ l, c.k ≠ k) : countAt l k = 0 := by
-  induction l with
-  | nil => rfl
-  | cons d l ih =>
-    simp only [countAt]
-    have := h d List.mem_cons_self
-    simp [this, ih (fun c hc => h c (List.mem_cons_of_mem _ hc))]
-
-/-- no pixel is invented and none is lost: `k` is an output key iff a record maps to `k` -/
-theorem mem_groupCells_keys (l : List (Key × Int)) (k : Key) :
-    (∃ c ∈ groupCells l, c.k = k) ↔ ∃ kv ∈ l, kv.1 = k := by
-  constructor
-  · rintro ⟨c, hc, rfl⟩
-    have h1 := countAt_pos_of_mem (groupCells_pos l) hc
-    rw [countAt_groupCells] at h1
-    have : 0 < l.countP (fun kv => kv.1 = c.k) := by omega
-    obtain ⟨kv, hkv, hp⟩ := List.countP_pos_iff.mp this
-    exact ⟨kv, hkv, by simpa using hp⟩
-  · rintro ⟨kv, hkv, rfl⟩
-    apply Classical.byContradiction
-    intro hno
-    have : countAt (groupCells l) kv.1 = 0 :=
-      countAt_zero_of_not_mem (fun c hc e => hno ⟨c, hc, e⟩)
-    rw [countAt_groupCells] at this
-    have h2 : 0 < l.countP (fun x => x.1 = kv.1) := List.countP_pos_iff.mpr ⟨kv, hkv, by simp⟩
-    omega
-
-/-! ## bin assignment -/
-
-theorem tiles_start_ge {g : List Bin} : ∀ {s : Nat}, TilesFrom s g → ∀ b ∈ g, s ≤ b.start := by
-  induction g with
-  | nil => intro s _ b hb; simp at hb
-  | cons x rest ih =>
-    intro s h b hb
-    obtain ⟨h1, h2, h3⟩ := h
-    rcases List.mem_cons.mp hb with e | hb
-    · subst e; omega
-    · have := ih h3 b hb; omega
-
-theorem lastStop_cons_cons (x y : Bin) (r : List Bin) : lastStop (x :: y :: r) = lastStop (y :: r) := by
-  simp [lastStop, List.getLast?_cons_cons]
-
-theorem lastStop_getElem? {g : List Bin} {x : Bin} (h : g[g.length - 1]? = some x) :
-    lastStop g = x.stop := by
-  unfold lastStop
-  rw [List.getLast?_eq_getElem?]
-  simp only [List.length_map, List.getElem?_map, h, Option.map_some, Option.getD_some]
-
-/-- the sorted-starts lemma in the form needed: in a gap-free tiling, the number of starts `≤ p`
-minus one is the index of the bin that contains `p` -/
-theorem tiles_locate {g : List Bin} : ∀ {s : Nat}, g ≠ [] → TilesFrom s g → ∀ {p : Nat}, s ≤ p →
-    p < lastStop g →
-    ∃ x, g[g.countP (fun b => decide (b.start ≤ p)) - 1]? = some x ∧
-      1 ≤ g.countP (fun b => decide (b.start ≤ p)) ∧ x.start ≤ p ∧ p < x.stop := by
-  induction g with
-  | nil => intro s h; exact absurd rfl h
-  | cons x rest ih =>
-    intro s _ ht p hsp hpl
-    obtain ⟨h1, h2, h3⟩ := ht
-    have hx : x.start ≤ p := by omega
-    have hc : ∀ l : List Bin, (x :: l).countP (fun b => decide (b.start ≤ p))
-        = l.countP (fun b => decide (b.start ≤ p)) + 1 := by
-      intro l; rw [List.countP_cons]; simp [hx]
-    rw [hc]
-    cases rest with
-    | nil =>
-      refine ⟨x, by simp, by simp, by omega, ?_⟩
-      simpa [lastStop] using hpl
-    | cons y r =>
-      rw [lastStop_cons_cons] at hpl
-      by_cases hp : p < x.stop
-      · have hz : (y :: r).countP (fun b => decide (b.start ≤ p)) = 0 := by
-          rw [List.countP_eq_zero]
-          intro b hb
-          have := tiles_start_ge h3 b hb
-          simp; omega
-        rw [hz]
-        exact ⟨x, by simp, by omega, by omega, hp⟩
-      · obtain ⟨z, hz1, hz2, hz3, hz4⟩ := ih (by simp) h3 (p := p) (by omega) hpl
-        refine ⟨z, ?_, by omega, hz3, hz4⟩
-        have e : (y :: r).countP (fun b => decide (b.start ≤ p)) + 1 - 1
-            = ((y :: r).countP (fun b => decide (b.start ≤ p)) - 1) + 1 := by omega
-        rw [e, List.getElem?_cons_succ]
-        exact hz1
-
-theorem tiles_before {g : List Bin} : ∀ {s : Nat}, TilesFrom s g → ∀ {j k : Nat} {a b : Bin},
-    g[j]? = some a → g[k]? = some b → j < k → a.stop ≤ b.start := by
-  induction g with
-  | nil => intro s _ j k a b h; simp at h
-  | cons x rest ih =>
-    intro s ht j k a b hj hk hjk
-    obtain ⟨_, _, h3⟩ := ht
-    cases k with
-    | zero => omega
-    | succ k' =>
-      rw [List.getElem?_cons_succ] at hk
-      cases j with
-      | zero =>
-        simp at hj; subst hj
-        exact tiles_start_ge h3 b (List.mem_of_getElem? hk)
-      | succ j' =>
-        rw [List.getElem?_cons_succ] at hj
-        exact ih h3 hj hk (by omega)
-
-theorem uniform_get {b L : Nat} {g : List Bin} : ∀ {k0 : Nat}, UniformFrom b L k0 g →
-    ∀ {i : Nat} {x : Bin}, g[i]? = some x → x.start = (k0 + i) * b ∧ x.stop = min ((k0 + i + 1) * b) L := by
-  induction g with
-  | nil => intro k0 _ i x h; simp at h
-  | cons y rest ih =>
-    intro k0 hu i x hi
-    obtain ⟨h1, h2, h3⟩ := hu
-    cases i with
-    | zero => simp at hi; subst hi; simp [h1, h2]
-    | succ i' =>
-      rw [List.getElem?_cons_succ] at hi
-      have := ih h3 hi
-      have e : k0 + 1 + i' = k0 + (i' + 1) := by omega
-      rw [e] at this; exact this
-
-/-- fixed-width table: bin `p / b` of the chromosome contains `p`, and exists -/
-theorem uniform_locate {b : Nat} {g : List Bin} (hv : ValidChrom g) (hu : UniformChrom b g) {p : Nat}
-    (hp : p < lastStop g) : 0 < b ∧ ∃ x, g[p / b]? = some x ∧ x.start ≤ p ∧ p < x.stop := by
-  obtain ⟨hne, ht⟩ := hv
-  unfold UniformChrom at hu
-  have hb : 0 < b := by
-    cases g with
-    | nil => exact absurd rfl hne
-    | cons x rest =>
-      obtain ⟨h1, h2, _⟩ := hu
-      obtain ⟨_, t2, _⟩ := ht
-      rcases Nat.eq_zero_or_pos b with h | h
-      · subst h; simp at h1 h2; omega
-      · exact h
-  refine ⟨hb, ?_⟩
-  have hlen : 0 < g.length := List.length_pos_iff.mpr hne
-  have hlast : g[g.length - 1]? = some (g[g.length - 1]'(by omega)) := List.getElem?_eq_getElem _
-  have hL := lastStop_getElem? hlast
-  have hget := (uniform_get hu hlast).2
-  have e : 0 + (g.length - 1) + 1 = g.length := by omega
-  rw [e, ← hL] at hget
-  have hLn : lastStop g ≤ g.length * b := by omega
-  have hidx : p / b < g.length := by
-    rw [Nat.div_lt_iff_lt_mul hb]; omega
-  refine ⟨g[p / b], List.getElem?_eq_getElem _, ?_, ?_⟩
-  · have := (uniform_get hu (List.getElem?_eq_getElem hidx)).1
-    rw [this]; simp only [Nat.zero_add]; exact Nat.div_mul_le_self p b
-  · have := (uniform_get hu (List.getElem?_eq_getElem hidx)).2
-    rw [this]; simp only [Nat.zero_add]
-    have h1 := Nat.div_add_mod p b
-    have h2 := Nat.mod_lt p hb
-    have h3 : (p / b + 1) * b = b * (p / b) + b := by rw [Nat.add_mul, Nat.mul_comm]; simp
-    omega
-
-/-! ### position of a chromosome's bins inside the table -/
-
-theorem sorted_split {bins : BinTable} (hs : ChromSorted bins) (c : Nat) :
-    bins = bins.filter (fun b => decide (b.chrom < c)) ++ bins.filter (fun b => decide (b.chrom = c))
-      ++ bins.filter (fun b => decide (c < b.chrom)) := by
-  induction bins with
-  | nil => rfl
-  | cons x rest ih =>
-    have hx : ∀ y ∈ rest, x.chrom ≤ y.chrom := fun y hy => List.rel_of_pairwise_cons hs hy
-    have ih' := ih (List.Pairwise.of_cons hs)
-    rcases Nat.lt_trichotomy x.chrom c with h | h | h
-    · have h2 : ¬ x.chrom = c := by omega
-      have h3 : ¬ c < x.chrom := by omega
-      simp only [List.filter_cons, h, h2, h3, decide_true, decide_false, if_true, if_false,
-        Bool.false_eq_true, List.cons_append]
-      exact congrArg _ ih'
-    · subst h
-      have hnil : rest.filter (fun b => decide (b.chrom < x.chrom)) = [] := by
-        rw [List.filter_eq_nil_iff]; intro y hy; have := hx y hy; simp; omega
-      rw [hnil] at ih'
-      simp only [List.filter_cons, Nat.lt_irrefl, decide_true, decide_false, if_true,
-        Bool.false_eq_true, if_false, hnil, List.nil_append, List.cons_append] at ih' ⊢
-      exact congrArg _ ih'
-    · have h1 : ¬ x.chrom < c := by omega
-      have h2 : ¬ x.chrom = c := by omega
-      have hnil : rest.filter (fun b => decide (b.chrom < c)) = [] := by
-        rw [List.filter_eq_nil_iff]; intro y hy; have := hx y hy; simp; omega
-      have hnil2 : rest.filter (fun b => decide (b.chrom = c)) = [] := by
-        rw [List.filter_eq_nil_iff]; intro y hy; have := hx y hy; simp; omega
-      rw [hnil, hnil2] at ih'
-      simp only [List.filter_cons, h, h1, h2, decide_true, decide_false, if_true, if_false,
-        Bool.false_eq_true, hnil, hnil2, List.nil_append] at ih' ⊢
-      exact congrArg _ ih'
-
-theorem groupOf_eq_filter (bins : BinTable) (c : Nat) :
-    groupOf bins c = bins.filter (fun b => decide (b.chrom = c)) := rfl
-
-theorem chromOff_eq_length (bins : BinTable) (c : Nat) :
-    chromOff bins c = (bins.filter (fun b => decide (b.chrom < c))).length := by
-  unfold chromOff; rw [List.countP_eq_length_filter]
-
-/-- in a table sorted by chromosome, row `k` of chromosome `c`'s group is row `chromOff c + k` of the table -/
-theorem group_getElem? {bins : BinTable} (hs : ChromSorted bins) (c k : Nat) {x : Bin}
-    (h : (groupOf bins c)[k]? = some x) : bins[chromOff bins c + k]? = some x := by
-  have hk : k < (groupOf bins c).length := by
-    rcases Nat.lt_or_ge k (groupOf bins c).length with h' | h'
-    · exact h'
-    · rw [List.getElem?_eq_none h'] at h; simp at h
-  have e := sorted_split hs c
-  rw [congrArg (fun l => l[chromOff bins c + k]?) e, chromOff_eq_length, List.append_assoc,
-    List.getElem?_append_right (by omega)]
-  simp only [Nat.add_sub_cancel_left]
-  rw [List.getElem?_append_left (by rw [← groupOf_eq_filter]; exact hk), ← groupOf_eq_filter]
-  exact h
-
-/-- L0 is met by the `k`-th bin of the chromosome's group when it contains `p` -/
-theorem binOfNat_of_group {bins : BinTable} (hs : ChromSorted bins) {c p k : Nat} {x : Bin}
-    (ht : TilesFrom 0 (groupOf bins c)) (hk : (groupOf bins c)[k]? = some x)
-    (h1 : x.start ≤ p) (h2 : p < x.stop) : binOfNat bins c p = some (chromOff bins c + k) := by
-  unfold binOfNat
-  rw [List.findIdx?_eq_some_iff_getElem]
-  have hget := group_getElem? hs c k hk
-  have hlt : chromOff bins c + k < bins.length := by
-    rcases Nat.lt_or_ge (chromOff bins c + k) bins.length with h' | h'
-    · exact h'
-    · rw [List.getElem?_eq_none h'] at hget; simp at hget
-  have hxc : x.chrom = c := by
-    have := List.mem_of_getElem? hk
-    unfold groupOf at this
-    simpa using (List.mem_filter.mp this).2
-  refine ⟨hlt, ?_, ?_⟩
-  · have : bins[chromOff bins c + k] = x := by
-      have := List.getElem?_eq_getElem hlt
-      rw [hget] at this; exact (Option.some.inj this).symm
-    rw [this]; simp [hxc, h1, h2]
-  · intro j hj
-    -- an earlier row either belongs to a smaller chromosome or is an earlier bin of the same one
-    rcases Nat.lt_or_ge j (chromOff bins c) with hjl | hjl
-    · have e := sorted_split hs c
-      have hj' : bins[j]? = some (bins[j]'(by omega)) := List.getElem?_eq_getElem _
-      rw [congrArg (fun l => l[j]?) e, List.append_assoc,
-        List.getElem?_append_left (by rw [← chromOff_eq_length]; exact hjl)] at hj'
-      have := (List.mem_filter.mp (List.mem_of_getElem? hj')).2
-      simp only [decide_eq_true_eq] at this
-      have hne : ¬ (bins[j]'(by omega)).chrom = c := by omega
-      simp [hne]
-    · obtain ⟨j', rfl⟩ : ∃ j', j = chromOff bins c + j' := ⟨j - chromOff bins c, by omega⟩
-      have hj'k : j' < k := by omega
-      have hkl : k < (groupOf bins c).length := by
-        rcases Nat.lt_or_ge k (groupOf bins c).length with h' | h'
-        · exact h'
-        · rw [List.getElem?_eq_none h'] at hk; simp at hk
-      have hgj : (groupOf bins c)[j']? = some ((groupOf bins c)[j']'(by omega)) :=
-        List.getElem?_eq_getElem _
-      have hb := group_getElem? hs c j' hgj
-      have := tiles_before ht hgj hk hj'k
-      have e2 : bins[chromOff bins c + j']'(by omega) = (groupOf bins c)[j']'(by omega) := by
-        have h' := List.getElem?_eq_getElem (l := bins) (i := chromOff bins c + j') (by omega)
-        rw [hb] at h'; exact (Option.some.inj h').symm
-      rw [e2]
-      have : ¬ p < ((groupOf bins c)[j']'(by omega)).stop := by omega
-      simp [this]
-
-/-- soundness of the L0 definition itself: a reported bin is a row of the table, lies on chromosome
-`c`, and contains the position -/
-theorem binOf_sound {bins : BinTable} {c : Nat} {pos i : Int} (h : binOf bins c pos = some i) :
-    0 ≤ pos ∧ 0 ≤ i ∧ ∃ b, bins[i.toNat]? = some b ∧ b.chrom = c ∧ (b.start : Int) ≤ pos ∧ pos < (b.stop : Int) := by
-  unfold binOf at h
-  split at h
-  · simp at h
-  · rename_i hp
-    simp only [Option.map_eq_some_iff] at h
-    obtain ⟨k, hk, rfl⟩ := h
-    unfold binOfNat at hk
-    rw [List.findIdx?_eq_some_iff_getElem] at hk
-    obtain ⟨hlt, hp1, _⟩ := hk
-    simp only [Bool.and_eq_true, decide_eq_true_eq] at hp1
-    refine ⟨by omega, by simp, bins[k], by simp [List.getElem?_eq_getElem hlt], hp1.1.1, ?_, ?_⟩ <;> omega
-
-/-! ### the two assignment paths meet L0 -/
-
-theorem mem_chromOrder {bins : BinTable} {c : Nat} : c ∈ chromOrder bins ↔ ∃ b ∈ bins, b.chrom = c := by
-  induction bins with
-  | nil => simp [chromOrder]
-  | cons x rest ih =>
-    simp only [chromOrder, List.mem_cons, List.mem_filter, ih, decide_eq_true_eq]
-    constructor
-    · rintro (h | ⟨⟨b, hb, hc⟩, _⟩)
-      · exact ⟨x, Or.inl rfl, h.symm⟩
-      · exact ⟨b, Or.inr hb, hc⟩
-    · rintro ⟨b, hb | hb, hc⟩
-      · left; rw [← hc, hb]
-      · by_cases h : c = x.chrom
-        · left; exact h
-        · right; exact ⟨⟨b, hb, hc⟩, h⟩
-
-theorem groupOf_mem_groups {bins : BinTable} {c : Nat} (h : groupOf bins c ≠ []) :
-    groupOf bins c ∈ groups bins := by
-  obtain ⟨b, hb⟩ := List.exists_mem_of_ne_nil _ h
-  unfold groupOf at hb
-  have hb' := List.mem_filter.mp hb
-  unfold groups
-  exact List.mem_map.mpr ⟨c, mem_chromOrder.mpr ⟨b, hb'.1, by simpa using hb'.2⟩, rfl⟩
-
-theorem group_ne_nil_of_len {bins : BinTable} {c : Nat} (h : 0 < chromLen bins c) : groupOf bins c ≠ [] := by
-  intro e; unfold chromLen at h; rw [e] at h; simp [lastStop] at h
-
-theorem ssRight_starts (g : List Bin) (p : Nat) :
-    ssRight (g.map Bin.start) p = g.countP (fun b => decide (b.start ≤ p)) := by
-  unfold ssRight; rw [List.countP_map]; rfl
-
-/-- **binAssign_var_correct**: on a valid chromosome of a chromosome-sorted table, for
-`0 ≤ pos < length` the variable-width assignment `offset + searchsorted(starts, pos, right) − 1` is the
-bin of chromosome `c` with `start ≤ pos < stop` -/
-theorem binAssign_var_correct {bins : BinTable} (hs : ChromSorted bins) {c : Nat}
-    (hv : ValidChrom (groupOf bins c)) {pos : Int} (h0 : 0 ≤ pos) (hL : pos < (chromLen bins c : Int)) :
-    binOf bins c pos = some (assignVar (chromOff bins c) ((groupOf bins c).map Bin.start) pos) := by
-  obtain ⟨p, rfl⟩ := Int.eq_ofNat_of_zero_le h0
-  have hp : p < lastStop (groupOf bins c) := by unfold chromLen at hL; omega
-  obtain ⟨x, hx1, hx2, hx3, hx4⟩ := tiles_locate hv.1 hv.2 (p := p) (Nat.zero_le _) hp
-  have hb := binOfNat_of_group hs hv.2 hx1 hx3 hx4
-  have hneg : ¬ ((p : Int) < 0) := by omega
-  unfold binOf assignVar ssRightI
-  simp only [hneg, if_false, Int.toNat_natCast, hb, Option.map_some, ssRight_starts]
-  congr 1
-  simp only [Int.ofNat_eq_natCast]
-  omega
-
-/-- **binAssign_fixed_correct**: on a chromosome tiled uniformly with `b` (what a reported bin size
-means, `C20.getBinsize_truthful`), for `0 ≤ pos < length` the fast path `offset + pos // b` is the bin
-of chromosome `c` with `start ≤ pos < stop`; in particular `pos // b` is below the chromosome's number
-of bins -/
-theorem binAssign_fixed_correct {bins : BinTable} (hs : ChromSorted bins) {c b : Nat}
-    (hv : ValidChrom (groupOf bins c)) (hu : UniformChrom b (groupOf bins c)) {pos : Int}
-    (h0 : 0 ≤ pos) (hL : pos < (chromLen bins c : Int)) :
-    binOf bins c pos = some (assignFixed (chromOff bins c) b pos) ∧
-      pos / (b : Int) < ((groupOf bins c).length : Int) := by
-  obtain ⟨p, rfl⟩ := Int.eq_ofNat_of_zero_le h0
-  have hp : p < lastStop (groupOf bins c) := by unfold chromLen at hL; omega
-  obtain ⟨hb, x, hx1, hx3, hx4⟩ := uniform_locate hv hu hp
-  have hb' := binOfNat_of_group hs hv.2 hx1 hx3 hx4
-  have hneg : ¬ ((p : Int) < 0) := by omega
-  have hlt : p / b < (groupOf bins c).length := by
-    rcases Nat.lt_or_ge (p / b) (groupOf bins c).length with h' | h'
-    · exact h'
-    · rw [List.getElem?_eq_none h'] at hx1; simp at hx1
-  constructor
-  · unfold binOf assignFixed
-    simp only [hneg, if_false, Int.toNat_natCast, hb', Option.map_some]
-    congr 1
-  · rw [← Int.natCast_ediv]; omega
-
-theorem assignBin_some (bins : BinTable) (b c : Nat) (pos : Int) :
-    assignBin bins (some b) c pos = assignFixed (chromOff bins c) b pos := rfl
-
-theorem assignBin_none (bins : BinTable) (c : Nat) (pos : Int) :
-    assignBin bins none c pos = assignVar (chromOff bins c) ((groupOf bins c).map Bin.start) pos := rfl
-
-/-- both paths, as `_sanitize_records` selects them -/
-theorem assign_eq_binOf {bins : BinTable} (hT : TableOK bins) {binsize : Option Nat}
-    (hb : ∀ b, binsize = some b → ∀ g ∈ groups bins, UniformChrom b g) {c : Nat} {pos : Int}
-    (h0 : 0 ≤ pos) (hL : pos < (chromLen bins c : Int)) :
-    binOf bins c pos = some (assignBin bins binsize c pos) := by
-  have hne : groupOf bins c ≠ [] := group_ne_nil_of_len (by omega)
-  have hg := groupOf_mem_groups hne
-  have hv := hT.2 _ hg
-  cases binsize with
-  | none => rw [assignBin_none]; exact binAssign_var_correct hT.1 hv h0 hL
-  | some b => rw [assignBin_some]; exact (binAssign_fixed_correct hT.1 hv (hb b rfl _ hg) h0 hL).1
-
-/-- non-vacuity of the hypotheses of `binAssign_*`: a table with a short last bin, a one-bin
-chromosome and a variable-width chromosome -/
-example : TableOK [⟨0, 0, 4⟩, ⟨0, 4, 8⟩, ⟨0, 8, 9⟩, ⟨1, 0, 3⟩, ⟨2, 0, 1⟩, ⟨2, 1, 6⟩] ∧
-    UniformChrom 4 (groupOf [⟨0, 0, 4⟩, ⟨0, 4, 8⟩, ⟨0, 8, 9⟩, ⟨1, 0, 3⟩, ⟨2, 0, 1⟩, ⟨2, 1, 6⟩] 0) ∧
-    binOf [⟨0, 0, 4⟩, ⟨0, 4, 8⟩, ⟨0, 8, 9⟩, ⟨1, 0, 3⟩, ⟨2, 0, 1⟩, ⟨2, 1, 6⟩] 2 5 = some 5 := by
-  refine ⟨⟨by decide, ?_⟩, by decide, by decide⟩
-  intro g hg
-  have : g ∈ [[(⟨0, 0, 4⟩ : Bin), ⟨0, 4, 8⟩, ⟨0, 8, 9⟩], [⟨1, 0, 3⟩], [⟨2, 0, 1⟩, ⟨2, 1, 6⟩]] := by
-    simpa [groups, chromOrder, groupOf] using hg
-  simp at this
-  rcases this with h | h | h <;> subst h <;> decide
-
-/-! ### monotonicity of the assignment (what `reflect` relies on) -/
-
-theorem chromOff_succ (bins : BinTable) (c : Nat) :
-    chromOff bins (c + 1) = chromOff bins c + (groupOf bins c).length := by
-  unfold chromOff groupOf
-  rw [← List.countP_eq_length_filter]
-  induction bins with
-  | nil => rfl
-  | cons x rest ih =>
-    simp only [List.countP_cons, ih, decide_eq_true_eq]
-    rcases Nat.lt_trichotomy x.chrom c with h | h | h
-    · have h1 : x.chrom < c + 1 := by omega
-      have h2 : ¬ x.chrom = c := by omega
-      simp [h, h1, h2]; omega
-    · subst h
-      simp; omega
-    · have h1 : ¬ x.chrom < c + 1 := by omega
-      have h2 : ¬ x.chrom < c := by omega
-      have h3 : ¬ x.chrom = c := by omega
-      simp [h1, h2, h3]
-
-theorem chromOff_mono (bins : BinTable) {c c' : Nat} (h : c ≤ c') : chromOff bins c ≤ chromOff bins c' := by
-  unfold chromOff
-  apply List.countP_mono_left
-  intro x _ hx
-  simp only [decide_eq_true_eq] at hx ⊢
-  omega
-
-theorem uniform_len {b : Nat} {g : List Bin} (hv : ValidChrom g) (hu : UniformChrom b g) :
-    0 < b ∧ lastStop g ≤ g.length * b := by
-  obtain ⟨hne, ht⟩ := hv
-  have hlen : 0 < g.length := List.length_pos_iff.mpr hne
-  have hlast : g[g.length - 1]? = some (g[g.length - 1]'(by omega)) := List.getElem?_eq_getElem _
-  have hL := lastStop_getElem? hlast
-  have hget := (uniform_get hu hlast).2
-  have e : 0 + (g.length - 1) + 1 = g.length := by omega
-  rw [e, ← hL] at hget
-  refine ⟨?_, by omega⟩
-  cases g with
-  | nil => exact absurd rfl hne
-  | cons x rest =>
-    obtain ⟨h1, h2, _⟩ := hu
-    obtain ⟨_, t2, _⟩ := ht
-    rcases Nat.eq_zero_or_pos b with h | h
-    · subst h; simp at h1 h2; omega
-    · exact h
-
-/-- every in-range (and, as the code stands, at-length) position is assigned into
-`[offset c, offset (c+1)]` -/
-theorem assign_bounds {bins : BinTable} (hT : TableOK bins) {binsize : Option Nat}
-    (hb : ∀ b, binsize = some b → ∀ g ∈ groups bins, UniformChrom b g) {c : Nat}
-    (hne : groupOf bins c ≠ []) {pos : Int} (h0 : 0 ≤ pos) (hL : pos ≤ (chromLen bins c : Int)) :
-    (chromOff bins c : Int) ≤ assignBin bins binsize c pos ∧
-      assignBin bins binsize c pos ≤ (chromOff bins (c + 1) : Int) := by
-  have hg := groupOf_mem_groups hne
-  have hv := hT.2 _ hg
-  obtain ⟨p, rfl⟩ := Int.eq_ofNat_of_zero_le h0
-  have hp : p ≤ lastStop (groupOf bins c) := by unfold chromLen at hL; omega
-  rw [chromOff_succ]
-  cases binsize with
-  | some b =>
-    obtain ⟨hbpos, hlen⟩ := uniform_len hv (hb b rfl _ hg)
-    have h1 : p / b ≤ (groupOf bins c).length := by
-      apply Nat.div_le_of_le_mul
-      rw [Nat.mul_comm]; omega
-    rw [assignBin_some]
-    unfold assignFixed
-    have hk : (p : Int) / (b : Int) = ((p / b : Nat) : Int) := (Int.natCast_ediv p b).symm
-    rw [hk]
-    generalize p / b = k at h1 ⊢
-    constructor <;> omega
-  | none =>
-    rw [assignBin_none]
-    unfold assignVar ssRightI
-    have hneg : ¬ ((p : Int) < 0) := by omega
-    simp only [hneg, if_false, Int.toNat_natCast, ssRight_starts]
-    have hle : (groupOf bins c).countP (fun b => decide (b.start ≤ p)) ≤ (groupOf bins c).length :=
-      List.countP_le_length
-    have hge : 1 ≤ (groupOf bins c).countP (fun b => decide (b.start ≤ p)) := by
-      obtain ⟨hne', ht⟩ := hv
-      cases hgc : groupOf bins c with
-      | nil => exact absurd hgc hne'
-      | cons x rest =>
-        rw [hgc] at ht
-        obtain ⟨t1, _, _⟩ := ht
-        rw [List.countP_cons]
-        have : decide (x.start ≤ p) = true := by simp; omega
-        simp [this]
-    constructor <;> omega
-
-theorem assign_mono_pos (bins : BinTable) (binsize : Option Nat) (c : Nat) {p q : Int} (h : p ≤ q) :
-    assignBin bins binsize c p ≤ assignBin bins binsize c q := by
-  cases binsize with
-  | some b =>
-    rw [assignBin_some, assignBin_some]
-    unfold assignFixed
-    rcases Nat.eq_zero_or_pos b with hb | hb
-    · subst hb; simp
-    · have := Int.ediv_le_ediv (c := (b : Int)) (by omega) h
-      omega
-  | none =>
-    rw [assignBin_none, assignBin_none]
-    unfold assignVar ssRightI
-    by_cases hp : p < 0
-    · simp only [hp, if_true]
-      split <;> omega
-    · have hq : ¬ q < 0 := by omega
-      simp only [hp, hq, if_false]
-      have : ssRight ((groupOf bins c).map Bin.start) p.toNat ≤ ssRight ((groupOf bins c).map Bin.start) q.toNat := by
-        unfold ssRight
-        apply List.countP_mono_left
-        intro x _ hx
-        simp only [decide_eq_true_eq] at hx ⊢
-        omega
-      omega
-
-/-- **monotonicity**: lexicographically ordered anchors get ordered bins -/
-theorem assign_le_of_lex {bins : BinTable} (hT : TableOK bins) {binsize : Option Nat}
-    (hb : ∀ b, binsize = some b → ∀ g ∈ groups bins, UniformChrom b g) {c1 c2 : Nat} {a1 a2 : Int}
-    (hn1 : groupOf bins c1 ≠ []) (hn2 : groupOf bins c2 ≠ [])
-    (h1 : 0 ≤ a1 ∧ a1 ≤ (chromLen bins c1 : Int)) (h2 : 0 ≤ a2 ∧ a2 ≤ (chromLen bins c2 : Int))
-    (hlex : c1 < c2 ∨ (c1 = c2 ∧ a1 ≤ a2)) :
-    assignBin bins binsize c1 a1 ≤ assignBin bins binsize c2 a2 := by
-  rcases hlex with h | ⟨rfl, h⟩
-  · have b1 := (assign_bounds hT hb hn1 h1.1 h1.2).2
-    have b2 := (assign_bounds hT hb hn2 h2.1 h2.2).1
-    have := chromOff_mono bins (show c1 + 1 ≤ c2 by omega)
-    omega
-  · exact assign_mono_pos bins binsize c1 h
-
-/-! ## the pipeline as a function of the anchors alone -/
-
-theorem decode_anc (o : Opts) (r : Rec) : (decode o r).map Row.anc = anchorOf o.oneBased r := by
-  unfold decode anchorOf
-  cases r.c1 <;> cases r.c2 <;> simp [Row.anc]
-
-theorem rows_anc (o : Opts) (recs : List Rec) :
-    (recs.filterMap (decode o)).map Row.anc = anchors o recs := by
-  unfold anchors
-  rw [List.map_filterMap]
-  congr 1
-  funext r
-  exact decode_anc o r
-
-theorem any_neg (rows : List Row) : rows.any Row.neg = (rows.map Row.anc).any Anchor.neg := by
-  rw [List.any_map]; rfl
-
-theorem any_excess (bins : BinTable) (rows : List Row) :
-    rows.any (Row.excess bins) = (rows.map Row.anc).any (Anchor.excess bins) := by
-  rw [List.any_map]; rfl
-
-theorem any_tril (rows : List Row) : rows.any Row.isTril = (rows.map Row.anc).any Anchor.lower := by
-  rw [List.any_map]; rfl
-
-theorem orient_anc (o : Opts) (r : Row) : (r.orient o).anc = r.anc.upper := by
-  unfold Row.orient Anchor.upper
-  have : r.isTril = r.anc.lower := rfl
-  rw [this]
-  split <;> rfl
-
-theorem map_orient_anc (o : Opts) (rows : List Row) :
-    (rows.map (Row.orient o)).map Row.anc = (rows.map Row.anc).map Anchor.upper := by
-  rw [List.map_map, List.map_map]
-  apply List.map_congr_left
-  intro r _
-  exact orient_anc o r
-
-theorem filter_tril_anc (rows : List Row) :
-    (rows.filter fun r => !r.isTril).map Row.anc = (rows.map Row.anc).filter fun a => !a.lower := by
-  rw [List.filter_map]; rfl
-
-theorem keyVals_assign (bins : BinTable) (bs : Option Nat) (rows : List Row) :
-    keyVals (rows.map (assignRow bins bs)) = (rows.map Row.anc).map (keyOf bins bs) := by
-  unfold keyVals
-  rw [List.map_map, List.map_map]
-  apply List.map_congr_left
-  intro r _
-  simp only [Function.comp, assignRow, Out.key, Out.val, keyOf, Row.anc]
-
-theorem insertOut_perm (x : Out) (l : List Out) : (insertOut x l).Perm (x :: l) := by
-  induction l with
-  | nil => exact List.Perm.refl _
-  | cons y rest ih =>
-    unfold insertOut
-    split
-    · exact List.Perm.refl _
-    · exact (List.Perm.cons y ih).trans (List.Perm.swap x y rest)
-
-theorem sortOuts_perm (l : List Out) : (sortOuts l).Perm l := by
-  induction l with
-  | nil => exact List.Perm.refl _
-  | cons x rest ih =>
-    have : sortOuts (x :: rest) = insertOut x (sortOuts rest) := rfl
-    rw [this]
-    exact (insertOut_perm x _).trans (List.Perm.cons x ih)
-
-theorem sortIf_perm (b : Bool) (l : List Out) : (if b then sortOuts l else l).Perm l := by
-  split
-  · exact sortOuts_perm l
-  · exact List.Perm.refl _
-
-/-- the model's output is sorted when `sort` is requested -/
-theorem insertOut_sorted (x : Out) (l : List Out) (h : l.Pairwise fun a b => kle a.key b.key = true) :
-    (insertOut x l).Pairwise fun a b => kle a.key b.key = true := by
-  induction l with
-  | nil => simp [insertOut]
-  | cons y rest ih =>
-    unfold insertOut
-    have hy : ∀ {z}, z ∈ rest → kle y.key z.key = true := fun hz => List.rel_of_pairwise_cons h hz
-    split
-    · rename_i hxy
-      refine List.Pairwise.cons ?_ h
-      intro z hz
-      rcases List.mem_cons.mp hz with e | hz
-      · rw [e]; exact hxy
-      · have := hy hz
-        simp only [kle, decide_eq_true_eq] at hxy this ⊢
-        omega
-    · rename_i hxy
-      refine List.Pairwise.cons ?_ (ih (List.Pairwise.of_cons h))
-      intro z hz
-      rcases List.mem_cons.mp ((insertOut_perm x rest).mem_iff.mp hz) with e | hz
-      · rw [e]
-        simp only [kle, decide_eq_true_eq] at hxy ⊢
-        omega
-      · exact hy hz
-
-theorem sortOuts_sorted (l : List Out) : (sortOuts l).Pairwise fun a b => kle a.key b.key = true := by
-  induction l with
-  | nil => simp [sortOuts]
-  | cons x rest ih => exact insertOut_sorted x _ ih
-
-theorem validate_anc (bins : BinTable) (rows : List Row) :
-    validateRows bins rows =
-      if (rows.map Row.anc).any Anchor.neg = true then .error .badInput
-      else if (rows.map Row.anc).any (Anchor.excess bins) = true then .error .badInput
-      else .ok () := by
-  unfold validateRows
-  rw [any_neg, any_excess]
-
-theorem trilStep_anc (o : Opts) (rows : List Row) :
-    trilStep o rows =
-      if o.tril = .raise ∧ (rows.map Row.anc).any Anchor.lower = true then .error .badInput
-      else if o.tril = .bogus ∧ (rows.map Row.anc).any Anchor.lower = true then .error .value
-      else .ok (match o.tril with
-        | .reflect => rows.map (Row.orient o)
-        | .drop => rows.filter fun r => !r.isTril
-        | _ => rows) := by
-  unfold trilStep
-  rw [any_tril]
-  cases o.tril <;> simp <;> split <;> simp_all
-
-theorem trilRows_anc (o : Opts) (rows : List Row) :
-    (match o.tril with
-      | .reflect => rows.map (Row.orient o)
-      | .drop => rows.filter fun r => !r.isTril
-      | _ => rows).map Row.anc = orientAnchors o.tril (rows.map Row.anc) := by
-  unfold orientAnchors
-  cases o.tril
-  · exact map_orient_anc o rows
-  · exact filter_tril_anc rows
-  all_goals rfl
-
-/-- **simulation**: an error of the anchors-only pipeline is the error of `_sanitize_records`;
-a value is, up to order, the `(bin1, bin2, value)` projection of its output -/
-theorem sanitizeWith_sim (bins : BinTable) (bs : Option Nat) (o : Opts) (recs : List Rec) :
-    (∀ e, anchorPipeline bins bs o (anchors o recs) = .error e → sanitizeWith bins bs o recs = .error e) ∧
-    (∀ kvs, anchorPipeline bins bs o (anchors o recs) = .ok kvs →
-      ∃ outs, sanitizeWith bins bs o recs = .ok outs ∧ (keyVals outs).Perm kvs) := by
-  unfold sanitizeWith anchorPipeline
-  rw [← rows_anc]
-  generalize recs.filterMap (decode o) = rows
-  simp only [validate_anc, trilStep_anc]
-  by_cases hv : o.validate = true
-  · simp only [hv, true_and, if_true]
-    by_cases h1 : (rows.map Row.anc).any Anchor.neg = true
-    · simp [h1]
-    · by_cases h2 : (rows.map Row.anc).any (Anchor.excess bins) = true
-      · simp [h1, h2]
-      · simp only [h1, h2]
-        by_cases h3 : o.tril = .raise ∧ (rows.map Row.anc).any Anchor.lower = true
-        · simp [h3]
-        · by_cases h4 : o.tril = .bogus ∧ (rows.map Row.anc).any Anchor.lower = true
-          · simp [h4]
-          · simp only [h3, h4, if_false]
-            refine ⟨by simp, ?_⟩
-            intro kvs hk
-            refine ⟨_, rfl, ?_⟩
-            have hk' := (Except.ok.inj hk).symm
-            rw [hk', ← trilRows_anc, ← keyVals_assign]
-            exact (sortIf_perm _ _).map _
-  · have hv' : o.validate = false := by simpa using hv
-    simp only [hv', false_and, if_false, Bool.false_eq_true]
-    by_cases h3 : o.tril = .raise ∧ (rows.map Row.anc).any Anchor.lower = true
-    · simp [h3]
-    · by_cases h4 : o.tril = .bogus ∧ (rows.map Row.anc).any Anchor.lower = true
-      · simp [h4]
-      · simp only [h3, h4, if_false]
-        refine ⟨by simp, ?_⟩
-        intro kvs hk
-        refine ⟨_, rfl, ?_⟩
-        have hk' := (Except.ok.inj hk).symm
-        rw [hk', ← trilRows_anc, ← keyVals_assign]
-        exact (sortIf_perm _ _).map _
-
-/-! ## the property -/
-
-/-- a reported bin size is truthful on a valid table — `C20.getBinsize_truthful`; this is what
-licenses the `anchor // binsize` fast path -/
-theorem binsize_truthful {bins : BinTable} (hT : TableOK bins) :
-    ∀ b, getBinsize bins = some b → ∀ g ∈ groups bins, UniformChrom b g :=
-  fun b h => Cooler.C20.getBinsize_truthful (groups bins) b hT.2 h
-
-def aggOf : Except Err (List (Key × Int)) → Except Err (List Cell)
-  | .error e => .error e
-  | .ok kvs => .ok (groupCells kvs)
-
-/-- the aggregated output of the model is the grouping of the anchors-only pipeline -/
-theorem aggregated_eq (bins : BinTable) (o : Opts) (recs : List Rec) :
-    aggregated bins o recs = aggOf (anchorPipeline bins (getBinsize bins) o (anchors o recs)) := by
-  obtain ⟨h1, h2⟩ := sanitizeWith_sim bins (getBinsize bins) o recs
-  unfold aggregated sanitizeRecords
-  cases hp : anchorPipeline bins (getBinsize bins) o (anchors o recs) with
-  | error e => rw [h1 e hp]; rfl
-  | ok kvs =>
-    obtain ⟨outs, ho, hperm⟩ := h2 kvs hp
-    rw [ho]
-    simp only [aggregateRecords, if_true, aggOf]
-    rw [groupCells_perm hperm]
-
-theorem orientAnchors_perm (t : Tril) {l₁ l₂ : List Anchor} (h : l₁.Perm l₂) :
-    (orientAnchors t l₁).Perm (orientAnchors t l₂) := by
-  unfold orientAnchors
-  cases t
-  · exact h.map _
-  · exact h.filter _
-  all_goals exact h
-
-theorem anchorPipeline_perm (bins : BinTable) (bs : Option Nat) (o : Opts) {l₁ l₂ : List Anchor}
-    (h : l₁.Perm l₂) : aggOf (anchorPipeline bins bs o l₁) = aggOf (anchorPipeline bins bs o l₂) := by
-  unfold anchorPipeline
-  rw [h.any_eq (f := Anchor.neg), h.any_eq (f := Anchor.excess bins), h.any_eq (f := Anchor.lower)]
-  repeat' split
-  all_goals first
-    | rfl
-    | (simp only [aggOf]; rw [groupCells_perm ((orientAnchors_perm o.tril h).map _)])
-
-/-- **sanitize_order_independent**: the aggregated outcome (error or pixel table) does not depend on
-the order of the records -/
-theorem sanitize_order_independent (bins : BinTable) (o : Opts) {recs₁ recs₂ : List Rec}
-    (h : recs₁.Perm recs₂) : aggregated bins o recs₁ = aggregated bins o recs₂ := by
-  rw [aggregated_eq, aggregated_eq]
-  exact anchorPipeline_perm bins _ o (h.filterMap _)
-
-/-- non-vacuity: two different orders of a batch with a duplicate pixel and a mirrored record -/
-example : [(⟨some 0, 1, some 1, 2, [], [], []⟩ : Rec), ⟨some 1, 2, some 0, 0, [], [], []⟩, ⟨some 0, 3, some 0, 0, [], [], []⟩].Perm
-    [⟨some 0, 3, some 0, 0, [], [], []⟩, ⟨some 0, 1, some 1, 2, [], [], []⟩, ⟨some 1, 2, some 0, 0, [], [], []⟩] ∧
-    aggregated [⟨0, 0, 2⟩, ⟨0, 2, 4⟩, ⟨1, 0, 3⟩] {}
-      [⟨some 0, 1, some 1, 2, [], [], []⟩, ⟨some 1, 2, some 0, 0, [], [], []⟩, ⟨some 0, 3, some 0, 0, [], [], []⟩]
-      = .ok [⟨(0, 1), 1, 0⟩, ⟨(0, 2), 2, 0⟩] := by
-  refine ⟨?_, by decide⟩
-  exact (List.Perm.cons _ (List.Perm.swap _ _ [])).trans (List.Perm.swap _ _ _)
-
-theorem anchors_one_based (o : Opts) (recs : List Rec) :
-    anchors { o with oneBased := true } recs = anchors { o with oneBased := false } (recs.map Rec.shiftDown) := by
-  unfold anchors
-  rw [List.filterMap_map]
-  congr 1
-  funext r
-  simp only [Function.comp, anchorOf, Rec.shiftDown]
-  cases r.c1 <;> cases r.c2 <;> simp
-
-/-- **sanitize_one_based**: one-based input is the zero-based input shifted by exactly one -/
-theorem sanitize_one_based (bins : BinTable) (o : Opts) (recs : List Rec) :
-    aggregated bins { o with oneBased := true } recs
-      = aggregated bins { o with oneBased := false } (recs.map Rec.shiftDown) := by
-  rw [aggregated_eq, aggregated_eq, anchors_one_based]
-  rfl
-
-example : aggregated [⟨0, 0, 2⟩, ⟨0, 2, 4⟩] { oneBased := true } [⟨some 0, 3, some 0, 1, [], [], []⟩]
-    = .ok [⟨(0, 1), 1, 0⟩] := by decide
-
-theorem anchorPipeline_ok {bins : BinTable} {bs : Option Nat} {o : Opts} {l : List Anchor}
-    {kvs : List (Key × Int)} (h : anchorPipeline bins bs o l = .ok kvs) :
-    (o.validate = true → ∀ a ∈ l, a.neg = false ∧ a.excess bins = false) ∧
-      kvs = (orientAnchors o.tril l).map (keyOf bins bs) := by
-  unfold anchorPipeline at h
-  split at h
-  · exact absurd h (by simp)
-  · split at h
-    · exact absurd h (by simp)
-    · split at h
-      · exact absurd h (by simp)
-      · split at h
-        · exact absurd h (by simp)
-        · rename_i h1 h2 _ _
-          refine ⟨?_, (Except.ok.inj h).symm⟩
-          intro hv a ha
-          simp only [hv, true_and, List.any_eq_true, not_exists, not_and, Bool.not_eq_true] at h1 h2
-          exact ⟨h1 a ha, h2 a ha⟩
-
-/-- membership in the oriented list: an upper-oriented record with the same bounds -/
-theorem mem_orient_upper {t : Tril} (ht : t = .reflect ∨ t = .drop) {l : List Anchor} {a : Anchor}
-    (ha : a ∈ orientAnchors t l) :
-    a.lower = false ∧ ∃ a0 ∈ l, (a = a0 ∨ a = a0.mirror) := by
-  unfold orientAnchors at ha
-  rcases ht with rfl | rfl
-  · simp only [List.mem_map] at ha
-    obtain ⟨a0, h0, rfl⟩ := ha
-    unfold Anchor.upper
-    by_cases hl : a0.lower = true
-    · simp only [hl, if_true]
-      refine ⟨?_, a0, h0, Or.inr rfl⟩
-      simp [Anchor.lower, Anchor.mirror] at hl ⊢
-      refine ⟨by omega, fun h => ?_⟩
-      have := of_decide_eq_true h
-      omega
-    · simp only [hl]
-      exact ⟨by simpa using hl, a0, h0, Or.inl rfl⟩
-  · simp only [List.mem_filter, Bool.not_eq_true', ] at ha
-    exact ⟨ha.2, a, ha.1, Or.inl rfl⟩
-
-/-- **sanitize_reflect_upper**: with validation on, after `reflect` (and after `drop`) every output
-row has `bin1 ≤ bin2` — although the triangle test is made on positions, not on bins -/
-theorem sanitize_reflect_upper {bins : BinTable} (hT : TableOK bins) (o : Opts)
-    (hval : o.validate = true) (ht : o.tril = .reflect ∨ o.tril = .drop) (recs : List Rec)
-    (hk : ∀ a ∈ anchors o recs, groupOf bins a.c1 ≠ [] ∧ groupOf bins a.c2 ≠ [])
-    {outs : List Out} (h : sanitizeRecords bins o recs = .ok outs) : ∀ x ∈ outs, x.bin1 ≤ x.bin2 := by
-  obtain ⟨h1, h2⟩ := sanitizeWith_sim bins (getBinsize bins) o recs
-  unfold sanitizeRecords at h
-  cases hp : anchorPipeline bins (getBinsize bins) o (anchors o recs) with
-  | error e => rw [h1 e hp] at h; exact absurd h (by simp)
-  | ok kvs =>
-    obtain ⟨outs', ho, hperm⟩ := h2 kvs hp
-    rw [ho] at h
-    have := Except.ok.inj h; subst this
-    obtain ⟨hb, rfl⟩ := anchorPipeline_ok hp
-    intro x hx
-    have hxk : (x.key, x.val) ∈ keyVals outs' := List.mem_map.mpr ⟨x, hx, rfl⟩
-    obtain ⟨a, ha, hka⟩ := List.mem_map.mp (hperm.mem_iff.mp hxk)
-    obtain ⟨hlow, a0, h0, hor⟩ := mem_orient_upper ht ha
-    have hbnd := hb hval a0 h0
-    have hkn := hk a0 h0
-    simp only [Anchor.neg, Anchor.excess, Bool.or_eq_false_iff, decide_eq_false_iff_not] at hbnd
-    have hkey : x.bin1 = assignBin bins (getBinsize bins) a.c1 a.a1 ∧
-        x.bin2 = assignBin bins (getBinsize bins) a.c2 a.a2 := by
-      simp only [keyOf, Out.key, Prod.mk.injEq] at hka
-      exact ⟨hka.1.1.symm, hka.1.2.symm⟩
-    rw [hkey.1, hkey.2]
-    have hlex : a.c1 < a.c2 ∨ (a.c1 = a.c2 ∧ a.a1 ≤ a.a2) := by
-      simp only [Anchor.lower, Bool.or_eq_false_iff, Bool.and_eq_false_iff, decide_eq_false_iff_not] at hlow
-      omega
-    rcases hor with rfl | rfl
-    · exact assign_le_of_lex hT (binsize_truthful hT) hkn.1 hkn.2 (by omega) (by omega) hlex
-    · simp only [Anchor.mirror] at hlex ⊢
-      exact assign_le_of_lex hT (binsize_truthful hT) hkn.2 hkn.1 (by omega) (by omega) hlex
-
-/-- non-vacuity, with a record whose two anchors share a bin but are in lower order and one that
-crosses chromosomes -/
-example : sanitizeRecords [⟨0, 0, 2⟩, ⟨0, 2, 4⟩, ⟨1, 0, 3⟩] {}
-    [⟨some 0, 3, some 0, 2, [], [], []⟩, ⟨some 1, 0, some 0, 3, [], [], []⟩] =
-    .ok [⟨⟨0, 2, 0, 3, 0, 2, 0, 3, [], [], []⟩, 1, 1⟩, ⟨⟨0, 3, 1, 0, 0, 3, 1, 0, [], [], []⟩, 1, 2⟩] := by
-  decide
-
-/-! ### count once -/
-
-theorem filterMap_eq_map_of {α β : Type} {f : α → Option β} {g : α → β} {l : List α}
-    (h : ∀ a ∈ l, f a = some (g a)) : l.filterMap f = l.map g := by
-  induction l with
-  | nil => rfl
-  | cons x rest ih =>
-    rw [List.filterMap_cons, h x List.mem_cons_self, List.map_cons,
-      ih (fun a ha => h a (List.mem_cons_of_mem _ ha))]
-
-theorem inside_not_bad {bins : BinTable} {a : Anchor} (h : a.inside bins) :
-    a.neg = false ∧ a.excess bins = false := by
-  obtain ⟨h1, h2, h3, h4⟩ := h
-  simp only [Anchor.neg, Anchor.excess, Bool.or_eq_false_iff, decide_eq_false_iff_not]
-  omega
-
-theorem inside_mirror {bins : BinTable} {a : Anchor} (h : a.inside bins) : a.mirror.inside bins := by
-  obtain ⟨h1, h2, h3, h4⟩ := h
-  exact ⟨h3, h4, h1, h2⟩
-
-theorem orient_inside {bins : BinTable} {t : Tril} {l : List Anchor} (h : ∀ a ∈ l, a.inside bins) :
-    ∀ a ∈ orientAnchors t l, a.inside bins := by
-  intro a ha
-  unfold orientAnchors at ha
-  cases t
-  · obtain ⟨a0, h0, rfl⟩ := List.mem_map.mp ha
-    unfold Anchor.upper
-    split
-    · exact inside_mirror (h a0 h0)
-    · exact h a0 h0
-  · exact h a (List.mem_filter.mp ha).1
-  all_goals exact h a ha
-
-/-- for a record inside its chromosomes the assigned pair is the pixel of L0 -/
-theorem keyOf_eq_pixelOf {bins : BinTable} (hT : TableOK bins) {bs : Option Nat}
-    (hb : ∀ b, bs = some b → ∀ g ∈ groups bins, UniformChrom b g) {a : Anchor} (h : a.inside bins) :
-    pixelOf bins a = some (keyOf bins bs a).1 := by
-  obtain ⟨h1, h2, h3, h4⟩ := h
-  unfold pixelOf keyOf
-  rw [assign_eq_binOf hT hb h1 h2, assign_eq_binOf hT hb h3 h4]
-
-theorem pipeline_of_inside {bins : BinTable} (bs : Option Nat) (o : Opts) {l : List Anchor}
-    (h : ∀ a ∈ l, a.inside bins) :
-    anchorPipeline bins bs o l =
-      if o.tril = .raise ∧ l.any Anchor.lower = true then .error .badInput
-      else if o.tril = .bogus ∧ l.any Anchor.lower = true then .error .value
-      else .ok ((orientAnchors o.tril l).map (keyOf bins bs)) := by
-  have h1 : l.any Anchor.neg = false := by
-    rw [List.any_eq_false]; intro a ha; simp [(inside_not_bad (h a ha)).1]
-  have h2 : l.any (Anchor.excess bins) = false := by
-    rw [List.any_eq_false]; intro a ha; simp [(inside_not_bad (h a ha)).2]
-  unfold anchorPipeline
-  simp [h1, h2]
-
-/-- **sanitize_count_once**: on a valid table, when every record on known chromosomes lies inside
-its chromosomes, the aggregated output is the per-pixel count (and value sum) of ONE unit per retained
-record, placed at `(binOf anchor₁, binOf anchor₂)` after orientation: the count stored under `k` is the
-number of retained records whose pixel is `k`, the counts add up to the number of retained records, and
-the output keys are strictly increasing (no pixel twice).  `retained` = both chromosomes known, mirrored
-to the upper triangle under `reflect`, lower-triangle records removed under `drop`. -/
-theorem sanitize_count_once {bins : BinTable} (hT : TableOK bins) (o : Opts) (recs : List Rec)
-    (hin : ∀ a ∈ anchors o recs, a.inside bins)
-    (hraise : (o.tril = .raise ∨ o.tril = .bogus) → ∀ a ∈ anchors o recs, a.lower = false) :
-    ∃ kvs : List (Key × Int),
-      (retained o recs).map (fun a => (pixelOf bins a, a.v)) = kvs.map (fun kv => (some kv.1, kv.2)) ∧
-      aggregated bins o recs = .ok (groupCells kvs) ∧
-      (∀ k, countAt (groupCells kvs) k = (retained o recs).countP (fun a => decide (pixelOf bins a = some k))) ∧
-      totalCount (groupCells kvs) = (retained o recs).length ∧
-      SortedCells (groupCells kvs) := by
-  refine ⟨(retained o recs).map (keyOf bins (getBinsize bins)), ?_, ?_, ?_, ?_, groupCells_sorted _⟩
-  · rw [List.map_map]
-    apply List.map_congr_left
-    intro a ha
-    have := keyOf_eq_pixelOf hT (binsize_truthful hT) (orient_inside hin a ha)
-    simp only [Function.comp, this]
-    rfl
-  · rw [aggregated_eq, pipeline_of_inside _ _ hin]
-    have hno : ∀ t, (o.tril = t → (o.tril = .raise ∨ o.tril = .bogus)) →
-        ¬ (o.tril = t ∧ (anchors o recs).any Anchor.lower = true) := by
-      intro t ht ⟨h1, h2⟩
-      obtain ⟨a, ha, hl⟩ := List.any_eq_true.mp h2
-      rw [hraise (ht h1) a ha] at hl
-      exact absurd hl (by simp)
-    rw [if_neg (hno .raise (fun h => Or.inl h)), if_neg (hno .bogus (fun h => Or.inr h))]
-    rfl
-  · intro k
-    rw [countAt_groupCells, List.countP_map]
-    apply List.countP_congr
-    intro a ha
-    have := keyOf_eq_pixelOf hT (binsize_truthful hT) (orient_inside hin a ha)
-    simp only [Function.comp, this, Option.some.injEq, decide_eq_true_eq]
-  · rw [totalCount_groupCells, List.length_map]
-
-/-- non-vacuity: a table with a short last bin and a variable-width neighbour would report no size;
-this one is fixed-width, the batch has an unknown chromosome, a mirrored record and a duplicate pixel -/
-example : TableOK [⟨0, 0, 2⟩, ⟨0, 2, 4⟩, ⟨0, 4, 5⟩, ⟨1, 0, 2⟩] ∧
-    (∀ a ∈ anchors {} [⟨some 0, 4, some 0, 1, [], [], [7]⟩, ⟨none, 9, some 0, 1, [], [], [1]⟩,
-        ⟨some 0, 0, some 0, 4, [], [], [5]⟩, ⟨some 1, 1, some 1, 0, [], [], [2]⟩], a.inside [⟨0, 0, 2⟩, ⟨0, 2, 4⟩, ⟨0, 4, 5⟩, ⟨1, 0, 2⟩]) ∧
-    aggregated [⟨0, 0, 2⟩, ⟨0, 2, 4⟩, ⟨0, 4, 5⟩, ⟨1, 0, 2⟩] {}
-      [⟨some 0, 4, some 0, 1, [], [], [7]⟩, ⟨none, 9, some 0, 1, [], [], [1]⟩,
-        ⟨some 0, 0, some 0, 4, [], [], [5]⟩, ⟨some 1, 1, some 1, 0, [], [], [2]⟩]
-      = .ok [⟨(0, 2), 2, 12⟩, ⟨(3, 3), 1, 2⟩] := by
-  refine ⟨⟨by decide, ?_⟩, by decide, by decide⟩
-  intro g hg
-  have : g ∈ [[(⟨0, 0, 2⟩ : Bin), ⟨0, 2, 4⟩, ⟨0, 4, 5⟩], [⟨1, 0, 2⟩]] := by
-    simpa [groups, chromOrder, groupOf] using hg
-  simp at this
-  rcases this with h | h <;> subst h <;> decide
-
-/-! ### rejection of positions outside the chromosome -/
-
-/-- the property's full wording: a position `< 0` or `≥ length` on a known chromosome is rejected -/
-def sanitize_rejects_outside_Statement : Prop :=
-  ∀ (bins : BinTable) (o : Opts) (recs : List Rec), o.validate = true →
-    (∃ a ∈ anchors o recs, a.a1 < 0 ∨ a.a1 ≥ (chromLen bins a.c1 : Int) ∨
-      a.a2 < 0 ∨ a.a2 ≥ (chromLen bins a.c2 : Int)) →
-    sanitizeRecords bins o recs = .error .badInput
-
-/-- what the code as it stands guarantees: `< 0` and `> length` are rejected with `BadInputError`,
-whatever else the batch contains.  Missing for the full statement: the case `pos = length`
-(known finding D13: the check is `anchor > chromsize`). -/
-theorem sanitize_rejects_outside_partial (bins : BinTable) (o : Opts) (recs : List Rec)
-    (hval : o.validate = true)
-    (h : ∃ a ∈ anchors o recs, a.a1 < 0 ∨ a.a1 > (chromLen bins a.c1 : Int) ∨
-      a.a2 < 0 ∨ a.a2 > (chromLen bins a.c2 : Int)) :
-    sanitizeRecords bins o recs = .error .badInput := by
-  obtain ⟨a, ha, hbad⟩ := h
-  apply (sanitizeWith_sim bins (getBinsize bins) o recs).1
-  unfold anchorPipeline
-  by_cases h1 : (anchors o recs).any Anchor.neg = true
-  · simp [hval, h1]
-  · have h2 : (anchors o recs).any (Anchor.excess bins) = true := by
-      rw [List.any_eq_true]
-      refine ⟨a, ha, ?_⟩
-      have hn : a.neg = false := by
-        simp only [List.any_eq_true, not_exists, not_and, Bool.not_eq_true] at h1
-        exact h1 a ha
-      simp only [Anchor.neg, Bool.or_eq_false_iff, decide_eq_false_iff_not] at hn
-      simp only [Anchor.excess, Bool.or_eq_true, decide_eq_true_eq]
-      omega
-    simp [hval, h1, h2]
-
-example : sanitizeRecords [⟨0, 0, 2⟩, ⟨0, 2, 4⟩] {} [⟨some 0, 1, some 0, 5, [], [], []⟩] = .error .badInput := by
-  decide
-
-/-- **the full statement fails on the code as it stands** (D13): zero-based position 4 on a
-chromosome of length 4 is accepted and binned into the first bin of the NEXT chromosome -/
-theorem sanitize_rejects_outside_fails : ¬ sanitize_rejects_outside_Statement := by
-  intro h
-  have := h [⟨0, 0, 2⟩, ⟨0, 2, 4⟩, ⟨1, 0, 2⟩] {} [⟨some 0, 1, some 0, 4, [], [], []⟩] rfl
-    ⟨⟨0, 1, 0, 4, 0⟩, by decide, by decide⟩
-  revert this
-  decide
-
-/-- the accepted record lands on another chromosome: bin 2 is `c1:[0,2)` -/
-example : sanitizeRecords [⟨0, 0, 2⟩, ⟨0, 2, 4⟩, ⟨1, 0, 2⟩] {} [⟨some 0, 1, some 0, 4, [], [], []⟩]
-    = .ok [⟨⟨0, 1, 0, 4, 0, 1, 0, 4, [], [], []⟩, 0, 2⟩] := by decide
-
-/-- **L1 = L0 away from D13**: with validation on, on a valid table, whenever no record sits exactly
-at its chromosome's length the model of the current code and the specification agree — on the error
-outcome as well as on every pixel -/
-theorem aggregated_eq_spec {bins : BinTable} (hT : TableOK bins) (o : Opts) (hval : o.validate = true)
-    (recs : List Rec) (hno : atLength bins o recs = false) :
-    aggregated bins o recs = specCounts bins o recs := by
-  by_cases hin : ∀ a ∈ anchors o recs, a.inside bins
-  · have hs1 : (anchors o recs).any (fun a => !decide (a.inside bins)) = false := by
-      rw [List.any_eq_false]; intro a ha; simp [hin a ha]
-    rw [aggregated_eq, pipeline_of_inside _ _ hin]
-    unfold specCounts
-    simp only [hs1, Bool.false_eq_true, if_false]
-    split
-    · rfl
-    · split
-      · rfl
-      · simp only [aggOf]
-        congr 2
-        unfold retained
-        symm
-        apply filterMap_eq_map_of
-        intro a ha
-        rw [keyOf_eq_pixelOf hT (binsize_truthful hT) (orient_inside hin a ha)]
-        rfl
-  · have hex : ∃ a ∈ anchors o recs, ¬ a.inside bins := by
-      apply Classical.byContradiction
-      intro hne
-      apply hin
-      intro a ha
-      apply Classical.byContradiction
-      intro hna
-      exact hne ⟨a, ha, hna⟩
-    obtain ⟨a, ha, hna⟩ := hex
-    have hs1 : (anchors o recs).any (fun a => !decide (a.inside bins)) = true := by
-      rw [List.any_eq_true]; exact ⟨a, ha, by simp [hna]⟩
-    have hat : ¬ (a.a1 = (chromLen bins a.c1 : Int)) ∧ ¬ (a.a2 = (chromLen bins a.c2 : Int)) := by
-      unfold atLength at hno
-      rw [List.any_eq_false] at hno
-      have := hno a ha
-      simpa using this
-    have hbad : a.a1 < 0 ∨ a.a1 > (chromLen bins a.c1 : Int) ∨ a.a2 < 0 ∨ a.a2 > (chromLen bins a.c2 : Int) := by
-      unfold Anchor.inside at hna
-      omega
-    have := sanitize_rejects_outside_partial bins o recs hval ⟨a, ha, hbad⟩
-    unfold aggregated
-    rw [this]
-    unfold specCounts
-    simp [hs1]
-
-/-! ## the executable well-formedness check implies the hypotheses -/
-
-theorem chromSortedB_cons {a : Bin} {rest : List Bin} (h : chromSortedB (a :: rest) = true) :
-    (∀ y ∈ rest, a.chrom ≤ y.chrom) ∧ chromSortedB rest = true := by
-  induction rest generalizing a with
-  | nil => simp [chromSortedB]
-  | cons b rest ih =>
-    simp only [chromSortedB, Bool.and_eq_true, decide_eq_true_eq] at h
-    obtain ⟨hab, hb⟩ := h
-    obtain ⟨h1, _⟩ := ih hb
-    refine ⟨?_, hb⟩
-    intro y hy
-    rcases List.mem_cons.mp hy with e | hy
-    · rw [e]; exact hab
-    · exact Nat.le_trans hab (h1 y hy)
-
-theorem chromSorted_of_B {bins : BinTable} (h : chromSortedB bins = true) : ChromSorted bins := by
-  induction bins with
-  | nil => exact List.Pairwise.nil
-  | cons a rest ih =>
-    obtain ⟨h1, h2⟩ := chromSortedB_cons h
-    exact List.Pairwise.cons h1 (ih h2)
-
-/-- the driver's `validSegmentationB` (evaluated on every table the correspondence uses) gives `TableOK` -/
-theorem tableOK_of_valid {bins : BinTable} (h : validSegmentationB bins = true) : TableOK bins := by
-  simp only [validSegmentationB, Bool.and_eq_true, List.all_eq_true, decide_eq_true_eq] at h
-  exact ⟨chromSorted_of_B h.1, h.2⟩
-
-/-! ## unsorted grouping (`groupby(sort=False)`) counts the same -/
-
-theorem countAt_bumpCell (k : Key) (v : Int) (l : List Cell) (k' : Key) :
-    countAt (bumpCell k v l) k' = countAt l k' + if k = k' then 1 else 0 := by
-  induction l with
-  | nil => simp [bumpCell, countAt]
-  | cons d l ih =>
-    unfold bumpCell
-    split
-    · rename_i h; subst h
-      simp only [countAt]
-      split <;> omega
-    · simp only [countAt, ih]; omega
-
-theorem totalCount_bumpCell (k : Key) (v : Int) (l : List Cell) :
-    totalCount (bumpCell k v l) = totalCount l + 1 := by
-  induction l with
-  | nil => simp [bumpCell, totalCount]
-  | cons d l ih =>
-    unfold bumpCell
-    split
-    · simp only [totalCount]; omega
-    · simp only [totalCount, ih]; omega
-
-theorem countAt_foldl_bump (l : List (Key × Int)) (acc : List Cell) (k : Key) :
-    countAt (l.foldl (fun acc kv => bumpCell kv.1 kv.2 acc) acc) k
-      = countAt acc k + l.countP (fun kv => kv.1 = k) := by
-  induction l generalizing acc with
-  | nil => simp
-  | cons x l ih =>
-    rw [List.foldl_cons, ih, countAt_bumpCell, List.countP_cons]
-    simp only [decide_eq_true_eq]
-    split <;> omega
-
-/-- order-of-appearance grouping stores the same count under every key … -/
-theorem countAt_groupFirst (l : List (Key × Int)) (k : Key) :
-    countAt (groupFirst l) k = countAt (groupCells l) k := by
-  unfold groupFirst
-  rw [countAt_foldl_bump, countAt_groupCells]
-  simp [countAt]
-
-theorem totalCount_foldl_bump (l : List (Key × Int)) (acc : List Cell) :
-    totalCount (l.foldl (fun acc kv => bumpCell kv.1 kv.2 acc) acc) = totalCount acc + l.length := by
-  induction l generalizing acc with
-  | nil => simp
-  | cons x l ih => rw [List.foldl_cons, ih, totalCount_bumpCell, List.length_cons]; omega
-
-/-- … and the same total -/
-theorem totalCount_groupFirst (l : List (Key × Int)) : totalCount (groupFirst l) = l.length := by
-  unfold groupFirst
-  rw [totalCount_foldl_bump]; simp [totalCount]
-
-/-! ## pre-binned records (`_sanitize_pixels`) -/
-
-theorem insertPx_perm (x : PxRec) (l : List PxRec) : (insertPx x l).Perm (x :: l) := by
-  induction l with
-  | nil => exact List.Perm.refl _
-  | cons y rest ih =>
-    unfold insertPx
-    split
-    · exact List.Perm.refl _
-    · exact (List.Perm.cons y ih).trans (List.Perm.swap x y rest)
-
-theorem sortPxRecs_perm (l : List PxRec) : (sortPxRecs l).Perm l := by
-  induction l with
-  | nil => exact List.Perm.refl _
-  | cons x rest ih =>
-    have : sortPxRecs (x :: rest) = insertPx x (sortPxRecs rest) := rfl
-    rw [this]
-    exact (insertPx_perm x _).trans (List.Perm.cons x ih)
-
-def PxRec.kv (p : PxRec) : Key × Int := (p.key, p.val)
-
-theorem shift_kv (o : Opts) (ps : List PxRec) :
-    (ps.map (PxRec.shift o)).map PxRec.kv = specPixelShift o ps := by
-  unfold specPixelShift
-  rw [List.map_map]
-  apply List.map_congr_left
-  intro p _
-  simp only [Function.comp, PxRec.shift, PxRec.kv, PxRec.key, PxRec.val]
-  split <;> simp
-
-/-- **pixels_count_once**: a pre-binned record contributes once, to the pixel named by its
-(shifted, oriented) id pair — up to the order of the rows -/
-theorem pixels_count_once (o : Opts) (ps : List PxRec)
-    (h : (o.tril = .raise ∨ o.tril = .bogus) → ∀ p ∈ ps, (p.shift o).isTril = false) :
-    ∃ out, sanitizePixels o ps = .ok out ∧ (out.map PxRec.kv).Perm (specPixelKeys o ps) := by
-  unfold sanitizePixels specPixelKeys trilPx
-  rw [← shift_kv]
-  have hany : (o.tril = .raise ∨ o.tril = .bogus) → (ps.map (PxRec.shift o)).any PxRec.isTril = false := by
-    intro ht
-    rw [List.any_eq_false]
-    intro p hp
-    obtain ⟨q, hq, rfl⟩ := List.mem_map.mp hp
-    simp [h ht q hq]
-  generalize ps.map (PxRec.shift o) = qs at hany
-  have hsort : ∀ l : List PxRec, ((if o.sort then sortPxRecs l else l).map PxRec.kv).Perm (l.map PxRec.kv) := by
-    intro l
-    split
-    · exact (sortPxRecs_perm l).map _
-    · exact List.Perm.refl _
-  cases ht : o.tril with
-  | keep => exact ⟨_, rfl, hsort _⟩
-  | reflect =>
-    refine ⟨_, rfl, (hsort _).trans ?_⟩
-    rw [List.map_map, List.map_map]
-    apply List.Perm.of_eq
-    apply List.map_congr_left
-    intro p _
-    simp only [Function.comp, PxRec.orient, PxRec.isTril, PxRec.kv, PxRec.key, PxRec.val]
-    by_cases hp : p.b1 > p.b2
-    · simp [hp, PxRec.reflect]
-    · simp [hp]
-  | drop =>
-    refine ⟨_, rfl, (hsort _).trans ?_⟩
-    rw [List.filter_map]
-    exact List.Perm.refl _
-  | raise =>
-    simp only [hany (Or.inl ht)]
-    exact ⟨_, rfl, hsort _⟩
-  | bogus =>
-    simp only [hany (Or.inr ht)]
-    exact ⟨_, rfl, hsort _⟩
-
-/-- **pixels_reflect_upper**: after `reflect` or `drop`, `bin1 ≤ bin2` -/
-theorem pixels_reflect_upper (o : Opts) (ht : o.tril = .reflect ∨ o.tril = .drop) (ps : List PxRec)
-    {out : List PxRec} (h : sanitizePixels o ps = .ok out) : ∀ p ∈ out, p.b1 ≤ p.b2 := by
-  unfold sanitizePixels trilPx at h
-  have hmem : ∀ (l : List PxRec) (p : PxRec), p ∈ (if o.sort then sortPxRecs l else l) → p ∈ l := by
-    intro l p hp
-    split at hp
-    · exact (sortPxRecs_perm l).mem_iff.mp hp
-    · exact hp
-  rcases ht with ht | ht
-  · simp only [ht] at h
-    have := Except.ok.inj h; subst this
-    intro p hp
-    obtain ⟨q, _, rfl⟩ := List.mem_map.mp (hmem _ p hp)
-    unfold PxRec.orient PxRec.isTril
-    by_cases hq : q.b1 > q.b2
-    · simp [hq, PxRec.reflect]; omega
-    · simp [hq]; omega
-  · simp only [ht] at h
-    have := Except.ok.inj h; subst this
-    intro p hp
-    have := (List.mem_filter.mp (hmem _ p hp)).2
-    simp [PxRec.isTril] at this
-    exact this
-
-example : sanitizePixels { oneBased := true, sort := true } [⟨3, 1, [], [], [5]⟩, ⟨1, 2, [], [], [7]⟩]
-    = .ok [⟨0, 1, [], [], [7]⟩, ⟨0, 2, [], [], [5]⟩] := by decide
-
-
-/-! ## the tabix-indexed loader -/
-
-theorem insertCell_append_left {k : Key} {v : Int} {A X : List Cell} (h : ∀ c ∈ A, klt c.k k) :
-    insertCell k v (A ++ X) = A ++ insertCell k v X := by
-  induction A with
-  | nil => rfl
-  | cons a A ih =>
-    rw [List.cons_append, insertCell_gt (h a List.mem_cons_self),
-      ih (fun c hc => h c (List.mem_cons_of_mem _ hc))]
-    rfl
-
-theorem insertCell_append_right {k : Key} {v : Int} {B C : List Cell} (h : ∀ c ∈ C, klt k c.k) :
-    insertCell k v (B ++ C) = insertCell k v B ++ C := by
-  induction B with
-  | nil =>
-    cases C with
-    | nil => rfl
-    | cons c C => rw [List.nil_append, insertCell_lt (h c List.mem_cons_self)]; rfl
-  | cons b B ih =>
-    rw [List.cons_append]
-    rcases klt_tri k b.k with h1 | h1 | h1
-    · rw [insertCell_lt h1, insertCell_lt h1]; rfl
-    · rw [insertCell_eq h1, insertCell_eq h1]; rfl
-    · rw [insertCell_gt h1, insertCell_gt h1, ih]; rfl
-
-theorem flatMap_congr_mem {α β : Type} {l : List α} {f g : α → List β} (h : ∀ a ∈ l, f a = g a) :
-    l.flatMap f = l.flatMap g := by
-  induction l with
-  | nil => rfl
-  | cons x l ih =>
-    rw [List.flatMap_cons, List.flatMap_cons, h x List.mem_cons_self,
-      ih (fun a ha => h a (List.mem_cons_of_mem _ ha))]
-
-/-- cells of row `i` -/
-def rowCells (K : List (Key × Int)) (i : Int) : List Cell := groupCells (K.filter fun kv => decide (kv.1.1 = i))
-
-theorem mem_rowCells_row {K : List (Key × Int)} {i : Int} {c : Cell} (h : c ∈ rowCells K i) : c.k.1 = i := by
-  obtain ⟨kv, hkv, hk⟩ := (mem_groupCells_keys _ c.k).mp ⟨c, h, rfl⟩
-  have := (List.mem_filter.mp hkv).2
-  simp only [decide_eq_true_eq] at this
-  rw [← hk]; exact this
-
-theorem rowCells_cons_same (x : Key × Int) (K : List (Key × Int)) :
-    rowCells (x :: K) x.1.1 = insertCell x.1 x.2 (rowCells K x.1.1) := by
-  unfold rowCells
-  rw [List.filter_cons_of_pos (by simp)]
-  rfl
-
-theorem rowCells_cons_other (x : Key × Int) (K : List (Key × Int)) {i : Int} (h : x.1.1 ≠ i) :
-    rowCells (x :: K) i = rowCells K i := by
-  unfold rowCells
-  rw [List.filter_cons_of_neg (by simpa using h)]
-
-/-- **key-range splitting**: grouping row by row, rows in increasing order, is grouping everything -/
-theorem rows_flatMap_eq (rows : List Int) (hs : rows.Pairwise (· < ·)) :
-    ∀ K : List (Key × Int), (∀ kv ∈ K, kv.1.1 ∈ rows) → rows.flatMap (rowCells K) = groupCells K := by
-  intro K
-  induction K with
-  | nil =>
-    intro _
-    have : ∀ i, rowCells [] i = [] := fun _ => rfl
-    simp [this, groupCells]
-  | cons x K ih =>
-    intro hK
-    have ihK := ih (fun kv h => hK kv (List.mem_cons_of_mem _ h))
-    have hx := hK x List.mem_cons_self
-    have hg : groupCells (x :: K) = insertCell x.1 x.2 (groupCells K) := rfl
-    rw [hg, ← ihK]
-    -- push the insertion to its row
-    clear ihK hg ih hK
-    induction rows with
-    | nil => simp at hx
-    | cons r rs ihr =>
-      have hr : ∀ s ∈ rs, r < s := fun s hs' => List.rel_of_pairwise_cons hs hs'
-      rw [List.flatMap_cons, List.flatMap_cons]
-      by_cases hxr : x.1.1 = r
-      · subst hxr
-        rw [rowCells_cons_same, insertCell_append_right]
-        · congr 1
-          apply flatMap_congr_mem
-          intro s hs'
-          exact rowCells_cons_other x K (by have := hr s hs'; omega)
-        · intro c hc
-          obtain ⟨s, hs', hcs⟩ := List.mem_flatMap.mp hc
-          have h1 := mem_rowCells_row hcs
-          have h2 := hr s hs'
-          left; omega
-      · have hx' : x.1.1 ∈ rs := by
-          rcases List.mem_cons.mp hx with h | h
-          · exact absurd h hxr
-          · exact h
-        rw [rowCells_cons_other x K hxr, insertCell_append_left, ihr (List.Pairwise.of_cons hs) hx']
-        intro c hc
-        have h1 := mem_rowCells_row hc
-        have h2 := hr _ hx'
-        left; omega
-
-/-- a row of the table is a row of its chromosome's group -/
-theorem group_index_of {bins : BinTable} (hs : ChromSorted bins) {i : Nat} {b : Bin}
-    (h : bins[i]? = some b) :
-    ∃ k, i = chromOff bins b.chrom + k ∧ (groupOf bins b.chrom)[k]? = some b := by
-  have e := sorted_split hs b.chrom
-  have hlt : i < bins.length := by
-    rcases Nat.lt_or_ge i bins.length with h' | h'
-    · exact h'
-    · rw [List.getElem?_eq_none h'] at h; simp at h
-  rw [congrArg (fun l => l[i]?) e, List.append_assoc] at h
-  rcases Nat.lt_or_ge i (chromOff bins b.chrom) with h1 | h1
-  · rw [List.getElem?_append_left (by rw [← chromOff_eq_length]; exact h1)] at h
-    have := (List.mem_filter.mp (List.mem_of_getElem? h)).2
-    simp at this
-  · rw [List.getElem?_append_right (by rw [← chromOff_eq_length]; exact h1), ← chromOff_eq_length] at h
-    rcases Nat.lt_or_ge (i - chromOff bins b.chrom) (groupOf bins b.chrom).length with h2 | h2
-    · rw [List.getElem?_append_left (by rw [← groupOf_eq_filter]; exact h2), ← groupOf_eq_filter] at h
-      exact ⟨i - chromOff bins b.chrom, by omega, h⟩
-    · rw [List.getElem?_append_right (by rw [← groupOf_eq_filter]; exact h2)] at h
-      have := (List.mem_filter.mp (List.mem_of_getElem? h)).2
-      simp at this
-
-/-- in a valid table the bin of chromosome `c` containing `p` is unique: a row that contains the
-position IS the row `binOf` reports -/
-theorem binOf_of_contains {bins : BinTable} (hT : TableOK bins) {i : Nat} {b : Bin}
-    (hb : bins[i]? = some b) {p : Nat} (h1 : b.start ≤ p) (h2 : p < b.stop) :
-    binOfNat bins b.chrom p = some i := by
-  obtain ⟨k, rfl, hk⟩ := group_index_of hT.1 hb
-  have hne : groupOf bins b.chrom ≠ [] := by
-    intro e; rw [e] at hk; simp at hk
-  have hv := hT.2 _ (groupOf_mem_groups hne)
-  exact binOfNat_of_group hT.1 hv.2 hk h1 h2
-
-/-- the first side of a fetched record decides the row: the index lookup and the bin assignment agree -/
-theorem fetched_iff {bins : BinTable} (hT : TableOK bins) {bs : Option Nat}
-    (hbs : ∀ b, bs = some b → ∀ g ∈ groups bins, UniformChrom b g) {i : Nat} {b : Bin}
-    (hb : bins[i]? = some b) {c1 : Nat} {p1 : Int} (h0 : 0 ≤ p1) (hL : p1 < (chromLen bins c1 : Int)) :
-    (b.chrom = c1 ∧ (b.start : Int) ≤ p1 ∧ p1 < (b.stop : Int)) ↔ assignBin bins bs c1 p1 = (i : Int) := by
-  have ha := assign_eq_binOf hT hbs h0 hL
-  constructor
-  · rintro ⟨rfl, h1, h2⟩
-    obtain ⟨p, rfl⟩ := Int.eq_ofNat_of_zero_le h0
-    have := binOf_of_contains hT hb (p := p) (by omega) (by omega)
-    unfold binOf at ha
-    have hneg : ¬ ((p : Int) < 0) := by omega
-    simp only [hneg, if_false, Int.toNat_natCast, this, Option.map_some] at ha
-    exact (Option.some.inj ha).symm
-  · intro h
-    rw [h] at ha
-    obtain ⟨_, _, b', hb', hc, hs1, hs2⟩ := binOf_sound ha
-    simp only [Int.toNat_natCast] at hb'
-    rw [hb] at hb'
-    have := Option.some.inj hb'
-    subst this
-    exact ⟨hc, hs1, hs2⟩
-
-theorem filterMap_congr_mem {α β : Type} {l : List α} {f g : α → Option β} (h : ∀ a ∈ l, f a = g a) :
-    l.filterMap f = l.filterMap g := by
-  induction l with
-  | nil => rfl
-  | cons x l ih =>
-    rw [List.filterMap_cons, List.filterMap_cons, h x List.mem_cons_self,
-      ih (fun a ha => h a (List.mem_cons_of_mem _ ha))]
-
-/-- the anchor of one line of the indexed file -/
-def tbxAnchor (oneBased : Bool) (r : TbxRec) : Option Anchor :=
-  anchorOf false ⟨r.c1, r.p1, r.c2, r.p2 - (if oneBased then 1 else 0), [], [], []⟩
-
-theorem tbx_anchors (oneBased : Bool) (file : List TbxRec) :
-    anchors { tril := .keep } (tbxRecs oneBased file) = file.filterMap (tbxAnchor oneBased) := by
-  unfold anchors tbxRecs
-  rw [List.filterMap_map]
-  rfl
-
-theorem tbxHits_eq {bins : BinTable} (hT : TableOK bins) (oneBased : Bool) (file : List TbxRec)
-    (hin : ∀ a ∈ anchors { tril := .keep } (tbxRecs oneBased file), a.inside bins) {i : Nat} {b : Bin}
-    (hb : bins[i]? = some b) :
-    tbxHits bins (getBinsize bins) oneBased file i b =
-      ((anchors { tril := .keep } (tbxRecs oneBased file)).map (keyOf bins (getBinsize bins))).filter
-        fun kv => decide (kv.1.1 = (i : Int)) := by
-  rw [tbx_anchors] at hin ⊢
-  unfold tbxHits tbxFetch
-  rw [List.filterMap_filter, List.map_filterMap, List.filter_filterMap]
-  apply filterMap_congr_mem
-  intro r hr
-  cases hc1 : r.c1 with
-  | none => simp [tbxAnchor, anchorOf, hc1]
-  | some c1 =>
-    cases hc2 : r.c2 with
-    | none => simp [tbxAnchor, anchorOf, hc1, hc2]
-    | some c2 =>
-      have ha : tbxAnchor oneBased r = some ⟨c1, r.p1, c2, r.p2 - (if oneBased then 1 else 0), 0⟩ := by
-        simp [tbxAnchor, anchorOf, hc1, hc2, firstVal]
-      have hins := hin _ (List.mem_filterMap.mpr ⟨r, hr, ha⟩)
-      obtain ⟨i1, i2, _, _⟩ := hins
-      have hiff := fetched_iff hT (binsize_truthful hT) hb (c1 := c1) (p1 := r.p1) i1 i2
-      rw [ha]
-      simp only [Option.map_some, keyOf, Option.filter_some]
-      by_cases hf : b.chrom = c1 ∧ (b.start : Int) ≤ r.p1 ∧ r.p1 < (b.stop : Int)
-      · have hk := hiff.mp hf
-        simp [hf.1, hf.2.1, hf.2.2, hk]
-      · have hk : ¬ assignBin bins (getBinsize bins) c1 r.p1 = (i : Int) := fun h => hf (hiff.mpr h)
-        simp [hk]
-        intro h1 h2
-        apply Classical.byContradiction
-        intro h3
-        exact hf ⟨h1.symm, h2, by omega⟩
-
-/-- **tabix_correct**: on a valid table, for an indexed file whose records on known chromosomes lie
-inside their chromosomes, the stream `TabixAggregator` produces (row by row through the index) is the
-aggregate `sanitize_records` ∘ `aggregate_records` gives for the same records — each record counted
-once, in the pixel of its two anchors.  (pysam's `fetch` is the primitive `tbxFetch`.) -/
-theorem tabix_correct {bins : BinTable} (hT : TableOK bins) (oneBased : Bool) (file : List TbxRec)
-    (hin : ∀ a ∈ anchors { tril := .keep } (tbxRecs oneBased file), a.inside bins) :
-    aggregated bins { tril := .keep } (tbxRecs oneBased file) = .ok (tabixAggregate bins oneBased file) := by
-  have hK : aggregated bins { tril := .keep } (tbxRecs oneBased file) =
-      .ok (groupCells ((anchors { tril := .keep } (tbxRecs oneBased file)).map (keyOf bins (getBinsize bins)))) := by
-    rw [aggregated_eq, pipeline_of_inside _ _ hin]
-    simp [aggOf, orientAnchors]
-  rw [hK]
-  congr 1
-  generalize hKdef : (anchors { tril := .keep } (tbxRecs oneBased file)).map (keyOf bins (getBinsize bins)) = K
-  -- rows
-  have hrows : tabixAggregate bins oneBased file =
-      ((List.range bins.length).map Int.ofNat).flatMap (rowCells K) := by
-    unfold tabixAggregate
-    rw [List.flatMap_map]
-    have hz : ((List.range bins.length).zip bins).flatMap
-          (fun ib => tbxRow bins (getBinsize bins) oneBased file ib.1 ib.2)
-        = ((List.range bins.length).zip bins).flatMap (fun ib => rowCells K (Int.ofNat ib.1)) := by
-      apply flatMap_congr_mem
-      intro ib hib
-      have hi := List.of_mem_zip hib
-      have hget : bins[ib.1]? = some ib.2 := by
-        obtain ⟨k, hk1, hk2⟩ := List.mem_iff_getElem.mp hib
-        have hk1' : k < bins.length := by simp at hk1; omega
-        have : ib = (k, bins[k]) := by
-          rw [← hk2]; simp
-        rw [this]
-        exact List.getElem?_eq_getElem hk1'
-      unfold tbxRow rowCells
-      rw [tbxHits_eq hT oneBased file hin hget, hKdef]
-      rfl
-    rw [hz]
-    have : ((List.range bins.length).zip bins).flatMap (fun ib => rowCells K (Int.ofNat ib.1))
-        = (((List.range bins.length).zip bins).map Prod.fst).flatMap (fun i => rowCells K (Int.ofNat i)) := by
-      rw [List.flatMap_map]
-    rw [this, List.map_fst_zip (by simp)]
-  rw [hrows]
-  apply (rows_flatMap_eq _ ?_ K ?_).symm
-  · rw [List.pairwise_map]
-    exact (List.pairwise_lt_range).imp (fun h => by simp only [Int.ofNat_eq_natCast]; omega)
-  · intro kv hkv
-    rw [← hKdef] at hkv
-    obtain ⟨a, ha, rfl⟩ := List.mem_map.mp hkv
-    obtain ⟨h1, h2, _, _⟩ := hin a ha
-    have hb := assign_eq_binOf hT (binsize_truthful hT) h1 h2
-    obtain ⟨_, hnn, b, hb', _⟩ := binOf_sound hb
-    have hlt : (assignBin bins (getBinsize bins) a.c1 a.a1).toNat < bins.length := by
-      rcases Nat.lt_or_ge (assignBin bins (getBinsize bins) a.c1 a.a1).toNat bins.length with h' | h'
-      · exact h'
-      · rw [List.getElem?_eq_none h'] at hb'; simp at hb'
-    simp only [keyOf, List.mem_map, List.mem_range]
-    exact ⟨_, hlt, by simp only [Int.ofNat_eq_natCast]; omega⟩
-
-/-- non-vacuity of `tabix_correct`: a four-line file (one line with an unknown second chromosome),
-one-based second positions; hypotheses hold and the stream is the expected one -/
-example : TableOK [⟨0, 0, 2⟩, ⟨0, 2, 4⟩, ⟨1, 0, 3⟩] ∧
-    (∀ a ∈ anchors { tril := .keep } (tbxRecs true
-        [⟨some 0, 1, some 1, 3⟩, ⟨some 0, 3, some 0, 4⟩, ⟨some 0, 3, none, 9⟩, ⟨some 0, 1, some 1, 1⟩]),
-      a.inside [⟨0, 0, 2⟩, ⟨0, 2, 4⟩, ⟨1, 0, 3⟩]) ∧
-    tabixAggregate [⟨0, 0, 2⟩, ⟨0, 2, 4⟩, ⟨1, 0, 3⟩] true
-      [⟨some 0, 1, some 1, 3⟩, ⟨some 0, 3, some 0, 4⟩, ⟨some 0, 3, none, 9⟩, ⟨some 0, 1, some 1, 1⟩]
-      = [⟨(0, 2), 2, 0⟩, ⟨(1, 1), 1, 0⟩] := by
-  refine ⟨⟨by decide, ?_⟩, by decide, by decide⟩
-  intro g hg
-  have : g ∈ [[(⟨0, 0, 2⟩ : Bin), ⟨0, 2, 4⟩], [⟨1, 0, 3⟩]] := by
-    simpa [groups, chromOrder, groupOf] using hg
-  simp at this
-  rcases this with h | h <;> subst h <;> decide
-
-end Cooler.C05
+import CoolerModel.Props.C05Core
+import CoolerModel.Props.C05First
+/-! C05 — umbrella: `C05Core` (assignment, sanitising, sorted aggregation, tabix) and `C05First`
+(`aggregate_records(sort=False)` stores exactly the same cells as the sorted aggregation). -/
